@@ -1,9 +1,2620 @@
-//! C14 — not implemented yet.
-use crate::util::{Args, Out};
-use serde_json::{Value, json};
+//! C14 — the formatter preserves programs, comments, and is idempotent.
+//!
+//! The real `mimium_fmt::pretty_print_cst` is executed on syntactically valid programs
+//! (shipped sources, layout/comment mutations of them, and generated programs printed with
+//! randomised layout) at every (width, indent) configuration; the oracle re-parses the
+//! output with the real parser (`parse_program`, `parse_to_expr`) and checks the five
+//! clauses of the property: formatting succeeds, the output parses without errors, the
+//! ASTs are equal under a span-insensitive structural comparison, every input comment
+//! occurs in the output in the same order, and formatting the output again is the identity.
 
-pub fn meta(_args: &Args) -> Value {
-    json!({"level": "exploration", "rule": "not implemented", "floor": {"quick": 1000000, "thorough": 1000000}})
+use super::{drive, replay_one};
+use crate::util::{Args, Out, Rng, catch, fp};
+use mimium_lang::ast::program::{Program, ProgramStatement, UseTarget, Visibility};
+use mimium_lang::ast::statement::Statement;
+use mimium_lang::ast::{Expr, Literal, MatchPattern};
+use mimium_lang::compiler::parser::{self, TokenKind};
+use mimium_lang::interner::{ExprNodeId, TypeNodeId};
+use mimium_lang::pattern::{Pattern, TypedId, TypedPattern};
+use mimium_lang::types::{PType, Type};
+use serde::{Deserialize, Serialize};
+use serde_json::{Value, json};
+use std::collections::{BTreeSet, HashMap};
+use std::path::PathBuf;
+
+pub const WIDTHS: [usize; 8] = [1, 8, 20, 40, 50, 80, 120, 200];
+pub const INDENTS: [usize; 3] = [2, 4, 8];
+
+// =====================================================================================
+// span-insensitive structural view of the AST
+// =====================================================================================
+
+/// A plain tree: constructor label (with its scalar payload) + children.
+#[derive(Clone, Debug, PartialEq, Eq)]
+pub struct N {
+    pub kind: &'static str,
+    pub payload: String,
+    pub kids: Vec<N>,
 }
-pub fn run(_args: &Args, _out: &mut Out) {}
-pub fn replay(_args: &Args, _out: &mut Out, _case: &Value) {}
+fn n(kind: &'static str, kids: Vec<N>) -> N {
+    N { kind, payload: String::new(), kids }
+}
+fn np(kind: &'static str, payload: impl Into<String>, kids: Vec<N>) -> N {
+    N { kind, payload: payload.into(), kids }
+}
+impl N {
+    fn label(&self) -> String {
+        if self.payload.is_empty() { self.kind.to_string() } else { format!("{}[{}]", self.kind, self.payload) }
+    }
+    pub fn size(&self) -> usize {
+        1 + self.kids.iter().map(|k| k.size()).sum::<usize>()
+    }
+    fn kinds(&self, out: &mut BTreeSet<&'static str>) {
+        out.insert(self.kind);
+        for k in &self.kids {
+            k.kinds(out);
+        }
+    }
+    fn show(&self, depth: usize, budget: &mut usize, out: &mut String) {
+        if *budget == 0 {
+            return;
+        }
+        *budget -= 1;
+        out.push_str(&"  ".repeat(depth));
+        out.push_str(&self.label());
+        out.push('\n');
+        for k in &self.kids {
+            k.show(depth + 1, budget, out);
+        }
+    }
+    pub fn render(&self, max_nodes: usize) -> String {
+        let mut s = String::new();
+        let mut b = max_nodes;
+        self.show(0, &mut b, &mut s);
+        s
+    }
+}
+
+/// First difference between two trees: (path of labels, class tag, left subtree, right subtree)
+pub struct Diff {
+    pub path: Vec<String>,
+    pub tag: String,
+    pub left: String,
+    pub right: String,
+}
+pub fn first_diff(a: &N, b: &N) -> Option<Diff> {
+    fn rec(a: &N, b: &N, path: &mut Vec<String>) -> Option<Diff> {
+        // a one-element tuple whose counterpart is not one: one event whatever the element is
+        if a.kind == "Tuple" && a.kids.len() == 1 && !(b.kind == "Tuple" && b.kids.len() == 1) {
+            return Some(Diff { path: path.clone(), tag: "one-element-tuple->its-element".to_string(), left: a.render(40), right: b.render(40) });
+        }
+        if a.kind != b.kind {
+            let tag = format!("{}->{}", a.kind, b.kind);
+            return Some(Diff { path: path.clone(), tag, left: a.render(40), right: b.render(40) });
+        }
+        if a.payload != b.payload {
+            return Some(Diff { path: path.clone(), tag: format!("{}-payload", a.kind), left: a.render(40), right: b.render(40) });
+        }
+        if a.kids.len() != b.kids.len() {
+            // find the first child that differs to make the class more telling
+            let parent = a.kind;
+            for (x, y) in a.kids.iter().zip(b.kids.iter()) {
+                if x != y {
+                    path.push(a.label());
+                    let inner = rec(x, y, path);
+                    path.pop();
+                    if let Some(d) = inner {
+                        return Some(d);
+                    }
+                }
+            }
+            return Some(Diff {
+                path: path.clone(),
+                tag: format!("{}-arity", parent),
+                left: a.render(40),
+                right: b.render(40),
+            });
+        }
+        path.push(a.label());
+        for (x, y) in a.kids.iter().zip(b.kids.iter()) {
+            if let Some(d) = rec(x, y, path) {
+                path.pop();
+                return Some(d);
+            }
+        }
+        path.pop();
+        None
+    }
+    rec(a, b, &mut vec![])
+}
+
+fn ty(t: TypeNodeId) -> N {
+    ty_depth(t, 0)
+}
+fn ty_depth(t: TypeNodeId, d: usize) -> N {
+    if d > 64 {
+        return n("TypeTooDeep", vec![]);
+    }
+    let r = |x: TypeNodeId| ty_depth(x, d + 1);
+    match t.to_type() {
+        Type::Primitive(p) => np(
+            "TPrim",
+            match p {
+                PType::Unit => "unit",
+                PType::Int => "int",
+                PType::Numeric => "float",
+                PType::String => "string",
+            },
+            vec![],
+        ),
+        Type::Array(a) => n("TArray", vec![r(a)]),
+        Type::Tuple(v) => n("TTuple", v.into_iter().map(r).collect()),
+        Type::Record(fs) => n(
+            "TRecord",
+            fs.into_iter().map(|f| np("TField", format!("{}{}", f.key.as_str(), if f.has_default { "=default" } else { "" }), vec![r(f.ty)])).collect(),
+        ),
+        Type::Function { arg, ret } => n("TFn", vec![r(arg), r(ret)]),
+        Type::Ref(a) => n("TRef", vec![r(a)]),
+        Type::Code(a) => n("TCode", vec![r(a)]),
+        Type::Union(v) => n("TUnion", v.into_iter().map(r).collect()),
+        Type::UserSum { name, variants } => np(
+            "TUserSum",
+            name.as_str(),
+            variants.into_iter().map(|(s, p)| np("TVariant", s.as_str(), p.into_iter().map(r).collect())).collect(),
+        ),
+        Type::Boxed(a) => n("TBoxed", vec![r(a)]),
+        Type::Intermediate(_) => n("TIntermediate", vec![]),
+        Type::TypeScheme(_) => n("TScheme", vec![]),
+        Type::TypeAlias(s) => np("TAlias", s.as_str(), vec![]),
+        Type::Any => n("TAny", vec![]),
+        Type::Failure => n("TFailure", vec![]),
+        Type::Unknown => n("TUnknown", vec![]),
+    }
+}
+fn lit(l: &Literal) -> N {
+    match l {
+        Literal::String(s) => np("LString", s.as_str(), vec![]),
+        Literal::Int(i) => np("LInt", i.to_string(), vec![]),
+        Literal::Float(s) => np("LFloat", s.as_str(), vec![]),
+        Literal::SelfLit => n("LSelf", vec![]),
+        Literal::Now => n("LNow", vec![]),
+        Literal::SampleRate => n("LSampleRate", vec![]),
+        Literal::PlaceHolder => n("LPlaceHolder", vec![]),
+    }
+}
+fn pat(p: &Pattern) -> N {
+    match p {
+        Pattern::Single(s) => np("PSingle", s.as_str(), vec![]),
+        Pattern::Placeholder => n("PPlaceholder", vec![]),
+        Pattern::Tuple(v) => n("PTuple", v.iter().map(pat).collect()),
+        Pattern::Record(v) => n("PRecord", v.iter().map(|(k, p)| np("PField", k.as_str(), vec![pat(p)])).collect()),
+        Pattern::Error => n("PError", vec![]),
+    }
+}
+fn tid(t: &TypedId, d: usize) -> N {
+    let mut kids = vec![ty(t.ty)];
+    if let Some(e) = t.default_value {
+        kids.push(n("Default", vec![ex(e, d + 1)]));
+    }
+    np("TypedId", t.id.as_str(), kids)
+}
+fn tpat(t: &TypedPattern, d: usize) -> N {
+    let mut kids = vec![pat(&t.pat), ty(t.ty)];
+    if let Some(e) = t.default_value {
+        kids.push(n("Default", vec![ex(e, d + 1)]));
+    }
+    n("TypedPattern", kids)
+}
+fn mpat(p: &MatchPattern) -> N {
+    match p {
+        MatchPattern::Literal(l) => n("MLit", vec![lit(l)]),
+        MatchPattern::Wildcard => n("MWildcard", vec![]),
+        MatchPattern::Variable(s) => np("MVar", s.as_str(), vec![]),
+        MatchPattern::Constructor(s, inner) => np("MCtor", s.as_str(), inner.iter().map(|b| mpat(b)).collect()),
+        MatchPattern::Tuple(v) => n("MTuple", v.iter().map(mpat).collect()),
+    }
+}
+fn opt(e: Option<ExprNodeId>, d: usize) -> N {
+    match e {
+        Some(e) => ex(e, d + 1),
+        None => n("None", vec![]),
+    }
+}
+/// `Then`/`Let`/`LetRec` chains are walked iteratively (they are as long as a file).
+fn ex(e: ExprNodeId, d: usize) -> N {
+    if d > 400 {
+        return n("ExprTooDeep", vec![]);
+    }
+    let r = |x: ExprNodeId| ex(x, d + 1);
+    // iterative spine for statement chains
+    let mut spine: Vec<N> = vec![];
+    let mut cur = e;
+    let last: N;
+    loop {
+        match cur.to_expr() {
+            Expr::Let(p, v, Some(then)) => {
+                spine.push(n("Let", vec![tpat(&p, d), r(v)]));
+                cur = then;
+            }
+            Expr::LetRec(id, v, Some(then)) => {
+                spine.push(n("LetRec", vec![tid(&id, d), r(v)]));
+                cur = then;
+            }
+            Expr::Then(a, Some(then)) => {
+                spine.push(n("Then", vec![r(a)]));
+                cur = then;
+            }
+            other => {
+                last = ex_node(other, d);
+                break;
+            }
+        }
+    }
+    if spine.is_empty() {
+        last
+    } else {
+        spine.push(last);
+        n("Seq", spine)
+    }
+}
+fn ex_node(e: Expr, d: usize) -> N {
+    let r = |x: ExprNodeId| ex(x, d + 1);
+    let rv = |v: Vec<ExprNodeId>| v.into_iter().map(|x| ex(x, d + 1)).collect::<Vec<_>>();
+    match e {
+        Expr::Literal(l) => lit(&l),
+        Expr::Var(s) => np("Var", s.as_str(), vec![]),
+        Expr::QualifiedVar(p) => np("QualifiedVar", p.segments.iter().map(|s| s.as_str()).collect::<Vec<_>>().join("::"), vec![]),
+        Expr::Block(b) => n("Block", vec![opt(b, d)]),
+        Expr::Tuple(v) => n("Tuple", rv(v)),
+        Expr::Proj(a, i) => np("Proj", i.to_string(), vec![r(a)]),
+        Expr::ArrayAccess(a, b) => n("ArrayAccess", vec![r(a), r(b)]),
+        Expr::ArrayLiteral(v) => n("ArrayLiteral", rv(v)),
+        Expr::RecordLiteral(fs) => n("RecordLiteral", fs.into_iter().map(|f| np("Field", f.name.as_str(), vec![r(f.expr)])).collect()),
+        Expr::ImcompleteRecord(fs) => n("ImcompleteRecord", fs.into_iter().map(|f| np("Field", f.name.as_str(), vec![r(f.expr)])).collect()),
+        Expr::RecordUpdate(b, fs) => {
+            let mut kids = vec![r(b)];
+            kids.extend(fs.into_iter().map(|f| np("Field", f.name.as_str(), vec![r(f.expr)])));
+            n("RecordUpdate", kids)
+        }
+        Expr::FieldAccess(a, s) => np("FieldAccess", s.as_str(), vec![r(a)]),
+        Expr::Apply(f, args) => {
+            let mut kids = vec![r(f)];
+            kids.extend(rv(args));
+            n("Apply", kids)
+        }
+        Expr::MacroExpand(f, args) => {
+            let mut kids = vec![r(f)];
+            kids.extend(rv(args));
+            n("MacroExpand", kids)
+        }
+        Expr::BinOp(a, (op, _), b) => np("BinOp", format!("{op:?}"), vec![r(a), r(b)]),
+        Expr::UniOp((op, _), a) => np("UniOp", format!("{op:?}"), vec![r(a)]),
+        Expr::Paren(a) => n("Paren", vec![r(a)]),
+        Expr::Lambda(ps, rt, body) => {
+            let mut kids = vec![n("Params", ps.iter().map(|p| tid(p, d)).collect())];
+            kids.push(match rt {
+                Some(t) => n("Ret", vec![ty(t)]),
+                None => n("NoRet", vec![]),
+            });
+            kids.push(r(body));
+            n("Lambda", kids)
+        }
+        Expr::Assign(a, b) => n("Assign", vec![r(a), r(b)]),
+        Expr::Then(a, b) => n("Then", vec![r(a), opt(b, d)]),
+        Expr::Feed(s, a) => np("Feed", s.as_str(), vec![r(a)]),
+        Expr::Let(p, v, b) => n("Let", vec![tpat(&p, d), r(v), opt(b, d)]),
+        Expr::LetRec(id, v, b) => n("LetRec", vec![tid(&id, d), r(v), opt(b, d)]),
+        Expr::If(c, t, e) => n("If", vec![r(c), r(t), opt(e, d)]),
+        Expr::Match(s, arms) => {
+            let mut kids = vec![r(s)];
+            kids.extend(arms.into_iter().map(|a| n("Arm", vec![mpat(&a.pattern), r(a.body)])));
+            n("Match", kids)
+        }
+        Expr::Bracket(a) => n("Bracket", vec![r(a)]),
+        Expr::Escape(a) => n("Escape", vec![r(a)]),
+        Expr::Error => n("ExprError", vec![]),
+    }
+}
+fn vis(v: &Visibility) -> &'static str {
+    match v {
+        Visibility::Private => "",
+        Visibility::Public => "pub",
+    }
+}
+fn stmt(s: &Statement) -> N {
+    match s {
+        Statement::Let(p, e) => n("SLet", vec![tpat(p, 0), ex(*e, 0)]),
+        Statement::LetRec(id, e) => n("SLetRec", vec![tid(id, 0), ex(*e, 0)]),
+        Statement::Assign(a, b) => n("SAssign", vec![ex(*a, 0), ex(*b, 0)]),
+        Statement::Single(e) => n("SSingle", vec![ex(*e, 0)]),
+        Statement::DeclareStage(k) => np("SStage", k.to_string(), vec![]),
+        Statement::Error => n("SError", vec![]),
+    }
+}
+fn pstmt(s: &ProgramStatement) -> N {
+    match s {
+        ProgramStatement::FnDefinition { visibility, name, args, return_type, body } => {
+            let mut kids = vec![n("Params", args.0.iter().map(|p| tid(p, 0)).collect())];
+            kids.push(match return_type {
+                Some(t) => n("Ret", vec![ty(*t)]),
+                None => n("NoRet", vec![]),
+            });
+            kids.push(ex(*body, 0));
+            np("FnDefinition", format!("{}{}", if vis(visibility).is_empty() { "" } else { "pub " }, name.as_str()), kids)
+        }
+        ProgramStatement::StageDeclaration { stage } => np("StageDeclaration", stage.to_string(), vec![]),
+        ProgramStatement::GlobalStatement(s) => n("GlobalStatement", vec![stmt(s)]),
+        ProgramStatement::Import(s) => np("Import", s.as_str(), vec![]),
+        ProgramStatement::ModuleDefinition { visibility, name, body } => np(
+            "ModuleDefinition",
+            format!("{}{}{}", if vis(visibility).is_empty() { "" } else { "pub " }, name.as_str(), if body.is_none() { " (external)" } else { "" }),
+            body.iter().flatten().map(|(s, _)| pstmt(s)).collect(),
+        ),
+        ProgramStatement::UseStatement { visibility, path, target } => np(
+            "UseStatement",
+            format!(
+                "{}{}{}",
+                if vis(visibility).is_empty() { "" } else { "pub " },
+                path.segments.iter().map(|s| s.as_str()).collect::<Vec<_>>().join("::"),
+                match target {
+                    UseTarget::Single => String::new(),
+                    UseTarget::Multiple(v) => format!("::{{{}}}", v.iter().map(|s| s.as_str()).collect::<Vec<_>>().join(",")),
+                    UseTarget::Wildcard => "::*".into(),
+                }
+            ),
+            vec![],
+        ),
+        ProgramStatement::TypeAlias { visibility, name, target_type } => {
+            np("TypeAlias", format!("{}{}", if vis(visibility).is_empty() { "" } else { "pub " }, name.as_str()), vec![ty(*target_type)])
+        }
+        ProgramStatement::TypeDeclaration { visibility, name, variants, is_recursive } => np(
+            "TypeDeclaration",
+            format!("{}{}{}", if vis(visibility).is_empty() { "" } else { "pub " }, if *is_recursive { "rec " } else { "" }, name.as_str()),
+            variants.iter().map(|v| np("Variant", v.name.as_str(), v.payload.iter().map(|t| ty(*t)).collect())).collect(),
+        ),
+        ProgramStatement::Comment(s) => np("Comment", s.as_str(), vec![]),
+        ProgramStatement::DocComment(s) => np("DocComment", s.as_str(), vec![]),
+        ProgramStatement::Error => n("StatementError", vec![]),
+    }
+}
+pub fn program_tree(p: &Program) -> N {
+    n("Program", p.statements.iter().map(|(s, _)| pstmt(s)).collect())
+}
+
+// =====================================================================================
+// concrete view: tokens, trivia ownership, CST parents (real tokenizer / preparser / CST parser)
+// =====================================================================================
+
+use mimium_lang::compiler::parser::green::GreenNode;
+use mimium_lang::compiler::parser::{SyntaxKind, Token};
+
+pub struct Cst {
+    pub toks: Vec<Token>,
+    /// raw indices of the non-trivia tokens, in order
+    pub nontrivia: Vec<usize>,
+    /// raw token index -> enclosing CST nodes from the root down (serial number, kind); statement and leaf wrappers skipped
+    pub chain: HashMap<usize, Vec<(usize, SyntaxKind)>>,
+    /// raw token index -> (serial number of the innermost enclosing Statement node, kind of the node holding that statement)
+    pub stmt: HashMap<usize, (usize, Option<SyntaxKind>, usize)>,
+    /// raw index of a trivia token -> (ordinal of the owning non-trivia token, is_leading)
+    pub owner: HashMap<usize, (usize, bool)>,
+    pub errors: Vec<(usize, String)>,
+}
+
+fn transparent(k: SyntaxKind) -> bool {
+    matches!(
+        k,
+        SyntaxKind::Statement
+            | SyntaxKind::Program
+            | SyntaxKind::IntLiteral
+            | SyntaxKind::FloatLiteral
+            | SyntaxKind::StringLiteral
+            | SyntaxKind::SelfLiteral
+            | SyntaxKind::NowLiteral
+            | SyntaxKind::SampleRateLiteral
+            | SyntaxKind::PlaceHolderLiteral
+            | SyntaxKind::Identifier
+            | SyntaxKind::SinglePattern
+            | SyntaxKind::PrimitiveType
+            | SyntaxKind::TypeIdent
+            | SyntaxKind::UnitType
+    )
+}
+
+pub fn cst_of(src: &str) -> Cst {
+    let tokens = parser::tokenize(src);
+    let pre = parser::preparse(&tokens);
+    let (root, arena, toks, errs) = parser::parse_cst(tokens, &pre);
+    let mut chain: HashMap<usize, Vec<(usize, SyntaxKind)>> = HashMap::new();
+    let mut stmt = HashMap::new();
+    let mut serial = 0usize;
+    // iterative walk: (node, chain of enclosing nodes, (statement serial, holder kind))
+    let mut stack: Vec<(parser::GreenNodeId, Vec<(usize, SyntaxKind)>, (usize, Option<SyntaxKind>, usize))> = vec![(root, vec![], (0, None, 0))];
+    while let Some((id, ch, st)) = stack.pop() {
+        match arena.get(id) {
+            GreenNode::Token { token_index, .. } => {
+                chain.insert(*token_index, ch);
+                stmt.insert(*token_index, st);
+            }
+            GreenNode::Internal { kind, children, .. } => {
+                serial += 1;
+                let mut nch = ch.clone();
+                if !transparent(*kind) {
+                    nch.push((serial, *kind));
+                }
+                let nst = if *kind == SyntaxKind::Statement { (serial, ch.last().map(|x| x.1), ch.last().map(|x| x.0).unwrap_or(0)) } else { st };
+                for c in children {
+                    stack.push((*c, nch.clone(), nst));
+                }
+            }
+        }
+    }
+    let mut owner = HashMap::new();
+    for (ord, v) in &pre.leading_trivia_map {
+        for raw in v {
+            owner.insert(*raw, (*ord, true));
+        }
+    }
+    for (ord, v) in &pre.trailing_trivia_map {
+        for raw in v {
+            owner.insert(*raw, (*ord, false));
+        }
+    }
+    Cst { nontrivia: pre.token_indices.clone(), chain, stmt, owner, errors: errs.iter().map(|e| (e.token_index, e.to_string())).collect(), toks }
+}
+
+impl Cst {
+    fn kind_at(&self, ord: usize) -> String {
+        self.nontrivia.get(ord).and_then(|r| self.toks.get(*r)).map(|t| format!("{:?}", t.kind)).unwrap_or_else(|| "Eof".into())
+    }
+    fn text_at<'a>(&self, src: &'a str, ord: usize) -> &'a str {
+        self.nontrivia.get(ord).and_then(|r| self.toks.get(*r)).map(|t| t.text(src)).unwrap_or("")
+    }
+    fn where_at(&self, ord: usize) -> String {
+        let ord = ord.min(self.nontrivia.len().saturating_sub(1));
+        match self.nontrivia.get(ord).and_then(|r| self.chain.get(r)).and_then(|c| c.last()) {
+            Some((_, p)) => format!("{p:?}"),
+            _ => "top".into(),
+        }
+    }
+    /// kind of the lowest CST node that contains both tokens
+    fn lca(&self, o1: usize, o2: usize) -> String {
+        let c1 = self.nontrivia.get(o1).and_then(|r| self.chain.get(r));
+        let c2 = self.nontrivia.get(o2).and_then(|r| self.chain.get(r));
+        match (c1, c2) {
+            (Some(a), Some(b)) => a.iter().zip(b.iter()).take_while(|(x, y)| x.0 == y.0).last().map(|(x, _)| format!("{:?}", x.1)).unwrap_or_else(|| "top".into()),
+            _ => "top".into(),
+        }
+    }
+    fn has_linebreak_before(&self, src: &str, ord: usize) -> bool {
+        let t = self.trivia_before(src, ord);
+        // `;` is a line break token; comments may contain either character, so ask the tokens
+        let start = if ord == 0 { 0 } else { self.nontrivia.get(ord - 1).map(|r| r + 1).unwrap_or(0) };
+        let end = self.nontrivia.get(ord).copied().unwrap_or(self.toks.len());
+        let _ = t;
+        self.toks[start.min(end)..end].iter().any(|t| t.kind == TokenKind::LineBreak)
+    }
+    fn raw_kind(&self, ord: usize) -> Option<TokenKind> {
+        self.nontrivia.get(ord).and_then(|r| self.toks.get(*r)).map(|t| t.kind)
+    }
+    fn stmt_at(&self, ord: usize) -> Option<(usize, Option<SyntaxKind>, usize)> {
+        self.nontrivia.get(ord).and_then(|r| self.stmt.get(r)).copied()
+    }
+    fn ordinal_of_raw(&self, raw: usize) -> usize {
+        self.nontrivia.iter().take_while(|r| **r < raw).count()
+    }
+    /// source text between non-trivia token ord-1 and ord
+    fn trivia_before<'a>(&self, src: &'a str, ord: usize) -> &'a str {
+        let start = if ord == 0 { 0 } else { self.nontrivia.get(ord - 1).map(|r| self.toks[*r].end()).unwrap_or(src.len()) };
+        let end = self.nontrivia.get(ord).map(|r| self.toks[*r].start).unwrap_or(src.len());
+        if start <= end { &src[start..end] } else { "" }
+    }
+}
+
+/// One place where the non-trivia token sequence of the output departs from the input's.
+#[derive(Clone, Debug)]
+pub struct Hunk {
+    pub a_ord: usize,
+    /// number of input tokens covered
+    pub a_len: usize,
+    pub b_ord: usize,
+    pub b_len: usize,
+    pub class: String,
+}
+
+/// Constructs whose CST nodes are printed by concatenating their tokens (no printer of their
+/// own in cst_print.rs): every event inside them is the same observation.
+fn family(kind: &str) -> &str {
+    match kind {
+        "MatchArm" | "MatchArmList" | "MatchPattern" | "ConstructorPattern" => "MatchExpr",
+        "VariantDef" => "TypeDecl",
+        k => k,
+    }
+}
+fn event_class(what: String, loc: &str) -> String {
+    let loc = family(loc);
+    if loc == "MatchExpr" || loc == "TypeDecl" { format!("printed-as-bare-tokens@{loc}") } else { format!("{what}@{loc}") }
+}
+
+/// Alignment of the token texts of `a` (input) and `b` (output). The formatter may only
+/// re-emit tokens, so every hunk is an event worth naming; locations refer to `a`'s CST.
+pub fn align(a_src: &str, a: &Cst, b_src: &str, b: &Cst) -> Vec<Hunk> {
+    let na = a.nontrivia.len();
+    let nb = b.nontrivia.len();
+    let ta = |k: usize| a.text_at(a_src, k);
+    let tb = |k: usize| b.text_at(b_src, k);
+    let (mut i, mut j) = (0, 0);
+    let mut hunks = vec![];
+    while i < na || j < nb {
+        if i < na && j < nb && ta(i) == tb(j) {
+            i += 1;
+            j += 1;
+            continue;
+        }
+        // what follows a candidate hunk must agree (one token; two for larger hunks when available)
+        let follows = |m: usize, nn: usize| -> bool {
+            let (ni, nj) = (i + m, j + nn);
+            let end_a = ni >= na;
+            let end_b = nj >= nb;
+            if end_a || end_b {
+                return end_a && end_b;
+            }
+            ta(ni) == tb(nj) && (m + nn <= 2 || ni + 1 >= na || nj + 1 >= nb || ta(ni + 1) == tb(nj + 1))
+        };
+        let mut found = None;
+        // 1. the same characters cut into tokens differently (glued or split tokens)
+        'glue: for total in 2..=14usize {
+            for m in 1..total {
+                let nn = total - m;
+                if i + m > na || j + nn > nb {
+                    continue;
+                }
+                let ca: String = (i..i + m).map(&ta).collect();
+                let cb: String = (j..j + nn).map(&tb).collect();
+                let (ni, nj) = (i + m, j + nn);
+                let next_agrees = if ni >= na || nj >= nb { ni >= na && nj >= nb } else { ta(ni) == tb(nj) };
+                if ca == cb && next_agrees {
+                    found = Some((m, nn));
+                    break 'glue;
+                }
+            }
+        }
+        // 2. a whole CST node of the input is missing from the output
+        let mut dropped_node: Option<(usize, SyntaxKind)> = None;
+        if found.is_none()
+            && i < na
+            && let Some(ch) = a.nontrivia.get(i).and_then(|r| a.chain.get(r))
+        {
+            // ancestors of a[i] that start at a[i], outermost first
+            for (serial, kind) in ch.iter() {
+                let starts_here = i == 0 || !a.nontrivia.get(i - 1).and_then(|r| a.chain.get(r)).is_some_and(|c| c.iter().any(|x| x.0 == *serial));
+                if !starts_here {
+                    continue;
+                }
+                let mut m = 0;
+                while i + m < na && a.nontrivia.get(i + m).and_then(|r| a.chain.get(r)).is_some_and(|c| c.iter().any(|x| x.0 == *serial)) {
+                    m += 1;
+                }
+                // demand two agreeing tokens after the node (a single one is too easily a coincidence)
+                let (ni, nj) = (i + m, j);
+                let strong = ni >= na || nj >= nb || ni + 1 >= na || nj + 1 >= nb || b.text_at(b_src, nj + 1).starts_with(a.text_at(a_src, ni + 1));
+                // ... or another token change starts right behind the node (tokens glued: `| |` -> `||`)
+                let glue_follows = ni + 1 < na && nj < nb && {
+                    let t = b.text_at(b_src, nj);
+                    let x = a.text_at(a_src, ni);
+                    t.len() > x.len() && t.starts_with(x) && t[x.len()..].starts_with(a.text_at(a_src, ni + 1))
+                };
+                let first_agrees = if ni >= na || nj >= nb { ni >= na && nj >= nb } else { a.text_at(a_src, ni) == b.text_at(b_src, nj) };
+                if m >= 1 && ((first_agrees && strong) || glue_follows) {
+                    found = Some((m, 0));
+                    dropped_node = Some((m, *kind));
+                    break;
+                }
+            }
+        }
+        // 3. tokens missing from the output (a separator comma first), 4. tokens only in the output
+        if found.is_none() {
+            for m in 1..=80usize {
+                if i + m <= na && follows(m, 0) {
+                    found = Some((m, 0));
+                    break;
+                }
+                if m <= 6 && j + m <= nb && follows(0, m) {
+                    found = Some((0, m));
+                    break;
+                }
+            }
+        }
+        let Some((m, nn)) = found else {
+            hunks.push(Hunk { a_ord: i, a_len: na - i, b_ord: j, b_len: nb - j, class: event_class(format!("changed:{}->{}", a.kind_at(i), b.kind_at(j)), &a.where_at(i)) });
+            return hunks;
+        };
+        let class = if m == 0 {
+            event_class(format!("inserted:{}-before-{}", b.kind_at(j), a.kind_at(i)), &a.where_at(i))
+        } else if let Some((_, kind)) = dropped_node {
+            event_class(format!("dropped-node:{kind:?}"), &a.lca(i.saturating_sub(1), i))
+        } else if nn == 0 {
+            if (i..i + m).all(|k| a.kind_at(k) == "Comma") {
+                event_class("dropped:Comma".to_string(), &a.where_at(i))
+            } else {
+                event_class(format!("dropped-tokens:{}", a.kind_at(i)), &a.where_at(i))
+            }
+        } else {
+            // same characters, other tokens; across a statement boundary?
+            let across = (i..i + m - 1).find(|k| a.stmt_at(*k).map(|s| s.0) != a.stmt_at(*k + 1).map(|s| s.0) && a.stmt_at(*k).map(|s| s.2) == a.stmt_at(*k + 1).map(|s| s.2));
+            match across {
+                Some(k) => {
+                    let holder = a.stmt_at(k + 1).and_then(|s| s.1).map(|k| format!("{k:?}")).unwrap_or_else(|| "top".into());
+                    event_class("statements-glued".to_string(), &holder)
+                }
+                None if m > nn => event_class(format!("glued-after:{}", a.kind_at(i)), &a.lca(i, i + 1)),
+                None if m >= 2 => event_class(format!("retokenized-after:{}", a.kind_at(i)), &a.lca(i, i + m - 1)),
+                None => event_class(format!("split:{}", a.kind_at(i)), &a.where_at(i)),
+            }
+        };
+        hunks.push(Hunk { a_ord: i, a_len: m, b_ord: j, b_len: nn, class });
+        i += m;
+        j += nn;
+    }
+    hunks
+}
+
+fn ends_expression(k: TokenKind) -> bool {
+    matches!(
+        k,
+        TokenKind::Ident
+            | TokenKind::IdentFunction
+            | TokenKind::IdentParameter
+            | TokenKind::IdentVariable
+            | TokenKind::Int
+            | TokenKind::Float
+            | TokenKind::Str
+            | TokenKind::SelfLit
+            | TokenKind::Now
+            | TokenKind::SampleRate
+            | TokenKind::PlaceHolder
+            | TokenKind::ParenEnd
+            | TokenKind::ArrayEnd
+            | TokenKind::BlockEnd
+    )
+}
+/// Line breaks mimium's parser is sensitive to, compared between input `a` and output `b`
+/// at token boundaries that the alignment maps onto each other (a_ord, b_ord, class):
+/// postfix continuations do not cross a line break (`parse_postfix_expr`), so
+/// * removing the line break in front of `(`, `[` or `.` after the end of an expression turns two
+///   expressions into a call, index or field access;
+/// * adding one stops a call, index or field access that the input had.
+pub fn linebreak_events(a_src: &str, a: &Cst, b_src: &str, b: &Cst, hunks: &[Hunk]) -> Vec<Hunk> {
+    let mut ev = vec![];
+    let na = a.nontrivia.len();
+    let nb = b.nontrivia.len();
+    let (mut i, mut j) = (0usize, 0usize);
+    let mut h = 0;
+    // `fresh`: the previous pair of tokens was matched one to one
+    let mut fresh = false;
+    while i < na && j < nb {
+        if h < hunks.len() && hunks[h].a_ord == i && hunks[h].b_ord == j {
+            i += hunks[h].a_len;
+            j += hunks[h].b_len;
+            h += 1;
+            fresh = false;
+            continue;
+        }
+        if a.text_at(a_src, i) != b.text_at(b_src, j) {
+            return ev;
+        }
+        if fresh {
+            let la = a.has_linebreak_before(a_src, i);
+            let lb = b.has_linebreak_before(b_src, j);
+            if la != lb {
+                let prev = a.raw_kind(i - 1).unwrap_or(TokenKind::Eof);
+                let cur = a.raw_kind(i).unwrap_or(TokenKind::Eof);
+                // only postfix continuations are sensitive to line breaks in mimium's parser
+                let postfix = matches!(cur, TokenKind::ParenBegin | TokenKind::ArrayBegin | TokenKind::Dot);
+                let lca = a.lca(i - 1, i);
+                let in_decl_header = matches!(lca.as_str(), "FunctionDecl" | "ModuleDecl" | "TypeDecl" | "VariantDef" | "UseStmt" | "top");
+                let (s1, s2) = (a.stmt_at(i - 1), a.stmt_at(i));
+                if la && !lb && s1.map(|x| x.0) != s2.map(|x| x.0) && s1.map(|x| x.2) == s2.map(|x| x.2) && b.trivia_before(b_src, j).is_empty() {
+                    // two statements of the input end up on one line with nothing between them
+                    let holder = s2.and_then(|x| x.1).map(|k| format!("{k:?}")).unwrap_or_else(|| "top".into());
+                    ev.push(Hunk { a_ord: i, a_len: 0, b_ord: j, b_len: 0, class: event_class("statements-glued".to_string(), &holder) });
+                } else if postfix && ends_expression(prev) && prev != TokenKind::IdentFunction && !in_decl_header {
+                    let what = if la && !lb { "linebreak-removed-before-postfix" } else { "linebreak-added-before-postfix" };
+                    ev.push(Hunk { a_ord: i, a_len: 0, b_ord: j, b_len: 0, class: event_class(what.to_string(), &lca) });
+                }
+            }
+        }
+        fresh = true;
+        i += 1;
+        j += 1;
+    }
+    ev
+}
+
+/// The observable cause a wrong output is attributed to: token-sequence changes other than
+/// dropped commas first, then parser-relevant line-break changes, then dropped commas.
+/// `upto`: only events at or before this output token (parse errors), nearest first.
+pub fn attribute(hunks: &[Hunk], lbs: &[Hunk], upto: Option<usize>) -> Option<String> {
+    let ok = |h: &&Hunk| upto.is_none_or(|u| h.b_ord <= u);
+    let strong: Vec<&Hunk> = hunks.iter().filter(|h| !h.class.starts_with("dropped:Comma")).filter(ok).collect();
+    let lb: Vec<&Hunk> = lbs.iter().filter(ok).collect();
+    let pick = |v: &Vec<&Hunk>| if upto.is_some() { v.last().map(|h| (*h).clone()) } else { v.first().map(|h| (*h).clone()) };
+    match (pick(&strong), pick(&lb)) {
+        (Some(s), Some(l)) => {
+            if upto.is_some() {
+                Some(if l.b_ord > s.b_ord { l.class } else { s.class })
+            } else {
+                Some(if l.b_ord < s.b_ord { l.class } else { s.class })
+            }
+        }
+        (Some(s), None) => Some(s.class),
+        (None, Some(l)) => Some(l.class),
+        (None, None) => hunks.iter().filter(ok).next_back().map(|h| h.class.clone()),
+    }
+}
+
+/// For two texts with identical token sequences: the first token whose preceding trivia differs.
+pub fn layout_divergence(a_src: &str, a: &Cst, b_src: &str, b: &Cst) -> String {
+    let n = a.nontrivia.len().min(b.nontrivia.len());
+    for k in 0..=n {
+        let x = a.trivia_before(a_src, k);
+        let y = b.trivia_before(b_src, k);
+        if x != y {
+            let c = if x.contains("//") || x.contains("/*") || y.contains("//") || y.contains("/*") { "+comment" } else { "" };
+            return format!("layout{c}@{}", a.where_at(k));
+        }
+    }
+    "layout:none".into()
+}
+
+// =====================================================================================
+// the oracle
+// =====================================================================================
+
+/// What the real front end says about a text.
+pub struct Parsed {
+    pub errors: Vec<String>,
+    pub tree: N,
+    /// comments in order of appearance (real tokenizer)
+    pub comments: Vec<String>,
+    pub nontrivia_tokens: usize,
+}
+
+pub fn comments_of(src: &str) -> (Vec<String>, usize) {
+    let toks = parser::tokenize(src);
+    let mut cs = vec![];
+    let mut nt = 0;
+    for t in &toks {
+        match t.kind {
+            TokenKind::SingleLineComment | TokenKind::MultiLineComment => cs.push(t.text(src).trim_end().to_string()),
+            TokenKind::Eof => {}
+            _ if t.is_trivia() => {}
+            _ => nt += 1,
+        }
+    }
+    (cs, nt)
+}
+
+pub fn parse_text(src: &str) -> Parsed {
+    let (prog, errs) = parser::parse_program(src, PathBuf::new());
+    let (comments, nontrivia_tokens) = comments_of(src);
+    Parsed { errors: errs.iter().map(|e| format!("{e} @token {}", e.token_index)).collect(), tree: program_tree(&prog), comments, nontrivia_tokens }
+}
+
+/// `parse_to_expr` view (the entry point the compiler uses): expression tree + number of errors.
+pub fn expr_view(src: &str, path: &Option<PathBuf>) -> (N, usize) {
+    let (e, _mi, errs) = parser::parse_to_expr(src, path.clone());
+    (ex(e, 0), errs.len())
+}
+
+pub fn set_indent(i: usize) {
+    match mimium_fmt::GLOBAL_DATA.lock() {
+        Ok(mut g) => g.indent_size = i,
+        Err(p) => p.into_inner().indent_size = i,
+    }
+}
+
+pub fn format_real(src: &str, width: usize) -> Result<Result<String, usize>, crate::util::Panic> {
+    catch(|| mimium_fmt::pretty_print_cst(src, &None, width).map_err(|e| e.len()))
+}
+
+#[derive(Clone, Debug)]
+pub struct Viol {
+    pub sig: String,
+    pub detail: String,
+    pub width: usize,
+    pub indent: usize,
+}
+
+fn clip(s: &str, n: usize) -> String {
+    if s.len() <= n {
+        s.to_string()
+    } else {
+        let mut e = n;
+        while !s.is_char_boundary(e) {
+            e -= 1;
+        }
+        format!("{}…[{} bytes]", &s[..e], s.len())
+    }
+}
+
+/// Greedy in-order matching of the input comments in the output: indices of the input
+/// comments that cannot be matched (each is a refuting event of the comment clause).
+fn unmatched_comments(a: &[String], b: &[String]) -> Vec<usize> {
+    let mut j = 0;
+    let mut miss = vec![];
+    for (i, x) in a.iter().enumerate() {
+        match b[j..].iter().position(|y| y == x) {
+            Some(p) => j += p + 1,
+            None => miss.push(i),
+        }
+    }
+    miss
+}
+
+/// Which token the `k`-th comment of the input is attached to (real preparser) and where that
+/// token sits in the CST: "trailing-of-Comma@ArgList<CallExpr".
+pub fn comment_owner(src: &str, cst: &Cst, k: usize, hunks: &[Hunk]) -> String {
+    let mut seen = 0;
+    for (raw, t) in cst.toks.iter().enumerate() {
+        if matches!(t.kind, TokenKind::SingleLineComment | TokenKind::MultiLineComment) {
+            if seen == k {
+                let ck = if t.kind == TokenKind::SingleLineComment { "line" } else { "block" };
+                let _ = src;
+                let _ = ck;
+                // the token that carries the comment is itself missing from the output
+                if let Some((ord, _)) = cst.owner.get(&raw)
+                    && let Some(h) = hunks.iter().find(|h| (h.class.starts_with("dropped-tokens") || h.class.starts_with("dropped-node")) && h.a_ord <= *ord && *ord < h.a_ord + h.a_len)
+                {
+                    return format!("with-{}", h.class);
+                }
+                return match cst.owner.get(&raw) {
+                    // separator commas are handled alike by all list printers: one class
+                    Some((ord, _)) if cst.kind_at(*ord) == "Comma" => "attached-to-Comma".to_string(),
+                    Some((ord, _)) if matches!(family(&cst.where_at(*ord)), "MatchExpr" | "TypeDecl") => format!("in-printed-as-bare-tokens@{}", family(&cst.where_at(*ord))),
+                    Some((ord, _)) => format!("attached-to-{}@{}", cst.kind_at(*ord), cst.where_at(*ord)),
+                    None => "unattached".to_string(),
+                };
+            }
+            seen += 1;
+        }
+    }
+    "?".into()
+}
+
+pub struct Input {
+    pub src: String,
+    pub parsed: Parsed,
+    pub expr: (N, usize),
+    pub cst: Cst,
+    pub path: Option<PathBuf>,
+}
+
+pub struct ConfigObs {
+    pub output: String,
+    pub changed: bool,
+}
+
+/// All clauses for one (text, width, indent). `memo` remembers outputs that were already
+/// fully examined for this program. Every violated clause is reported (not only the first).
+pub fn check_config(input: &Input, width: usize, indent: usize, memo: &mut HashMap<String, Vec<Viol>>, out: &mut Out) -> Result<ConfigObs, Vec<Viol>> {
+    let v = |sig: String, detail: String| Viol { sig, detail, width, indent };
+    set_indent(indent);
+    let formatted = match format_real(&input.src, width) {
+        Err(p) => return Err(vec![v(format!("format-panics/{}", p.sig()), format!("pretty_print_cst panicked: {} @ {}", p.msg, p.loc))]),
+        Ok(Err(nerr)) => {
+            return Err(vec![v("format-fails-on-valid-program".into(), format!("pretty_print_cst returned Err({nerr} errors) although parse_program reports no error"))]);
+        }
+        Ok(Ok(s)) => s,
+    };
+    out.count("formatter_calls", 1);
+    let mut viols: Vec<Viol> = vec![];
+    // clauses that only depend on the output text
+    match memo.get(&formatted) {
+        Some(m) => {
+            out.count("outputs_identical_to_an_examined_one", 1);
+            viols.extend(m.iter().cloned().map(|mut x| {
+                x.width = width;
+                x.indent = indent;
+                x
+            }));
+        }
+        None => {
+            out.count("distinct_outputs_parsed_and_compared", 1);
+            let r = check_output_text(input, &formatted, width, indent, memo.len(), out);
+            memo.insert(formatted.clone(), r.clone());
+            viols.extend(r);
+        }
+    }
+    // idempotence depends on (output, width, indent). An output that already refutes the property by
+    // not parsing or by parsing to another tree is not examined further at this configuration
+    // (whatever a second pass does to it is a consequence, not a separate observation).
+    if viols.iter().any(|x| x.sig.starts_with("output-does-not-parse") || x.sig.starts_with("ast-differs")) {
+        out.count("idempotence_not_examined(output_already_wrong)", 1);
+        return Err(viols);
+    }
+    match format_real(&formatted, width) {
+        Err(p) => viols.push(v(format!("reformat-panics/{}", p.sig()), format!("formatting the output again panicked: {} @ {}\n--- output\n{}", p.msg, p.loc, clip(&formatted, 1500)))),
+        Ok(Err(nerr)) => {
+            // the output does not parse: already reported by the parse clause; only a separate event if that clause held
+            if !viols.iter().any(|x| x.sig.starts_with("output-does-not-parse")) {
+                viols.push(v("reformat-fails".into(), format!("formatting the output again returned Err({nerr})\n--- output\n{}", clip(&formatted, 1500))));
+            }
+        }
+        Ok(Ok(a)) if a != formatted => {
+            out.count("formatter_calls", 1);
+            let (la, lb) = first_line_diff(&formatted, &a);
+            let third = format_real(&a, width).ok().and_then(|r| r.ok());
+            let conv = match &third {
+                Some(t) if *t == a => "second pass is a fixed point",
+                Some(_) => "third pass changes it again",
+                None => "third pass fails",
+            };
+            let tag = idempotence_class(&formatted, &a);
+            viols.push(v(
+                format!("not-idempotent/{tag}"),
+                format!(
+                    "fmt(fmt(x)) != fmt(x) ({conv}); first differing line:\n  once : {}\n  twice: {}\n--- fmt(x)\n{}\n--- fmt(fmt(x))\n{}",
+                    clip(&la, 200),
+                    clip(&lb, 200),
+                    clip(&formatted, 1500),
+                    clip(&a, 1500)
+                ),
+            ));
+        }
+        Ok(Ok(_)) => {
+            out.count("formatter_calls", 1);
+            out.count("idempotence_held", 1);
+        }
+    }
+    if viols.is_empty() { Ok(ConfigObs { changed: formatted != input.src, output: formatted }) } else { Err(viols) }
+}
+
+fn first_line_diff(a: &str, b: &str) -> (String, String) {
+    let mut ia = a.lines();
+    let mut ib = b.lines();
+    loop {
+        match (ia.next(), ib.next()) {
+            (Some(x), Some(y)) if x == y => continue,
+            (x, y) => return (x.unwrap_or("<eof>").to_string(), y.unwrap_or("<eof>").to_string()),
+        }
+    }
+}
+
+/// How the second pass differs from the first.
+fn idempotence_class(a: &str, b: &str) -> String {
+    let ca = cst_of(a);
+    let cb = cst_of(b);
+    let (ma, _) = comments_of(a);
+    let (mb, _) = comments_of(b);
+    if mb.len() > ma.len() {
+        return "comment-duplicated".into();
+    } else if mb.len() < ma.len() {
+        return "comment-lost-on-second-pass".into();
+    } else if ma != mb {
+        return "comments-change".into();
+    }
+    match align(a, &ca, b, &cb).first() {
+        Some(h) => h.class.clone(),
+        None => layout_divergence(a, &ca, b, &cb),
+    }
+}
+
+fn check_output_text(input: &Input, formatted: &str, width: usize, indent: usize, expr_views_done: usize, out: &mut Out) -> Vec<Viol> {
+    let mut viols = vec![];
+    let mut v = |sig: String, detail: String| viols.push(Viol { sig, detail, width, indent });
+    let o = parse_text(formatted);
+    out.count("outputs_reparsed", 1);
+    let ocst = cst_of(formatted);
+    let hunks = align(&input.src, &input.cst, formatted, &ocst);
+    // --- comment clause
+    let miss = unmatched_comments(&input.parsed.comments, &o.comments);
+    let mut seen_tags = BTreeSet::new();
+    for i in &miss {
+        let tag = comment_owner(&input.src, &input.cst, *i, &hunks);
+        if tag.starts_with("with-dropped") {
+            // the token carrying the comment is itself missing: part of that (separately reported) event
+            out.count("comments_lost_together_with_dropped_tokens", 1);
+            continue;
+        }
+        let c = &input.parsed.comments[*i];
+        let elsewhere = o.comments.iter().filter(|x| *x == c).count() >= input.parsed.comments.iter().filter(|x| *x == c).count();
+        let kind = if elsewhere { "comment-out-of-order" } else { "comment-lost" };
+        if seen_tags.insert(format!("{kind}/{tag}")) {
+            v(
+                format!("{kind}/{tag}"),
+                format!(
+                    "input comment #{i} {:?} is {} in the output (input has {} comments, output {}; {} unmatched)\n--- output\n{}",
+                    c,
+                    if elsewhere { "not in input order" } else { "missing" },
+                    input.parsed.comments.len(),
+                    o.comments.len(),
+                    miss.len(),
+                    clip(formatted, 1500)
+                ),
+            );
+        }
+    }
+    out.count("comments_checked", input.parsed.comments.len() as u64);
+    out.count("comments_found_in_order", (input.parsed.comments.len() - miss.len()) as u64);
+    if o.comments.len() > input.parsed.comments.len() {
+        out.count("outputs_with_more_comments_than_input", 1);
+    }
+    // --- parse clause
+    if !hunks.is_empty() {
+        out.count("outputs_whose_token_sequence_differs_from_input", 1);
+        for h in &hunks {
+            out.set("token_sequence_changes_seen", h.class.clone());
+        }
+    }
+    if !o.errors.is_empty() {
+        // blame the nearest token-sequence change at or before the first error token; without one,
+        // a line break (or its absence) changed the parse
+        let e_ord = match ocst.errors.first() {
+            // errors at the end of the input carry token index 0
+            Some((_, msg)) if msg.starts_with("Unexpected end of input") => usize::MAX,
+            Some((raw, _)) => ocst.ordinal_of_raw(*raw),
+            None => 0,
+        };
+        let lbs = linebreak_events(&input.src, &input.cst, formatted, &ocst, &hunks);
+        let tag = match attribute(&hunks, &lbs, Some(e_ord)) {
+            Some(c) => c,
+            None => format!("layout@{}", input.cst.where_at(e_ord.min(input.cst.nontrivia.len()))),
+        };
+        v(
+            format!("output-does-not-parse/{tag}"),
+            format!(
+                "the output has {} parse errors, first: {} (token changes: {:?})\n--- output\n{}",
+                o.errors.len(),
+                o.errors[0],
+                hunks.iter().map(|h| h.class.as_str()).take(6).collect::<Vec<_>>(),
+                clip(formatted, 1500)
+            ),
+        );
+        return viols;
+    }
+    out.count("outputs_parsed_without_error", 1);
+    // --- AST clause
+    if let Some(d) = first_diff(&input.parsed.tree, &o.tree) {
+        let lbs = linebreak_events(&input.src, &input.cst, formatted, &ocst, &hunks);
+        let tag = if d.tag == "one-element-tuple->its-element" {
+            // the tree difference itself names the cause
+            "dropped:Comma@TupleExpr".to_string()
+        } else {
+            match attribute(&hunks, &lbs, None) {
+                Some(c) if !c.starts_with("dropped:Comma") => c,
+                _ => format!("layout/{}", d.tag),
+            }
+        };
+        v(
+            format!("ast-differs/{tag}"),
+            format!(
+                "parse_program trees differ at {} ({}; token changes: {:?})\n--- input subtree\n{}--- output subtree\n{}--- output\n{}",
+                d.path.join(" > "),
+                d.tag,
+                hunks.iter().map(|h| h.class.as_str()).take(6).collect::<Vec<_>>(),
+                d.left,
+                d.right,
+                clip(formatted, 1500)
+            ),
+        );
+        return viols;
+    }
+    out.count("program_trees_compared_equal", 1);
+    out.count("ast_nodes_compared", input.parsed.tree.size() as u64);
+    // parse_to_expr is a function of the Program just compared (plus include files); it is the
+    // entry point the compiler uses, so it is run too, on the first distinct outputs of a program
+    // (every parse interns its nodes for the life of the process)
+    if expr_views_done >= 2 {
+        return viols;
+    }
+    let oe = expr_view(formatted, &input.path);
+    if let Some(d) = first_diff(&input.expr.0, &oe.0) {
+        v(
+            format!("ast-differs/parse_to_expr/{}", d.tag),
+            format!("parse_to_expr trees differ at {}\n--- input subtree\n{}--- output subtree\n{}--- output\n{}", d.path.join(" > "), d.left, d.right, clip(formatted, 1500)),
+        );
+    } else if oe.1 != input.expr.1 {
+        v(
+            "ast-differs/parse_to_expr-error-count".into(),
+            format!("parse_to_expr reports {} errors on the input and {} on the output\n--- output\n{}", input.expr.1, oe.1, clip(formatted, 1500)),
+        );
+    } else {
+        out.count("expr_trees_compared_equal", 1);
+    }
+    viols
+}
+
+// =====================================================================================
+// cases
+// =====================================================================================
+
+#[derive(Clone, Debug, Serialize, Deserialize)]
+pub struct Case {
+    /// where the text comes from: "corpus:<rel path>", "mut:<kind>:<rel path>", "gen"
+    pub origin: String,
+    /// the program text itself
+    pub src: String,
+    /// (width, indent) configurations to run
+    pub configs: Vec<(usize, usize)>,
+    /// path handed to parse_to_expr (include resolution), relative to the repo; None for generated text
+    #[serde(default)]
+    pub rel_path: Option<String>,
+}
+
+fn all_configs() -> Vec<(usize, usize)> {
+    let mut v = vec![];
+    for i in INDENTS {
+        for w in WIDTHS {
+            v.push((w, i));
+        }
+    }
+    v
+}
+
+pub struct ExecCtx {
+    pub repo: String,
+    pub max_viol_per_sig: u64,
+}
+
+pub fn load_input(ctx: &ExecCtx, c: &Case) -> Input {
+    let parsed = parse_text(&c.src);
+    let path = c.rel_path.as_ref().map(|r| PathBuf::from(&ctx.repo).join(r));
+    let expr = if parsed.errors.is_empty() { expr_view(&c.src, &path) } else { (n("unparsed", vec![]), 0) };
+    Input { src: c.src.clone(), parsed, expr, cst: cst_of(&c.src), path }
+}
+
+pub fn exec_case(ctx: &ExecCtx, c: &Case, idx: usize, out: &mut Out) -> bool {
+    out.count("texts_offered", 1);
+    let input = load_input(ctx, c);
+    if !input.parsed.errors.is_empty() {
+        out.count("texts_rejected_by_parser(not_counted)", 1);
+        return false;
+    }
+    if input.parsed.nontrivia_tokens == 0 {
+        out.count("texts_without_tokens(not_counted)", 1);
+        return false;
+    }
+    out.count("valid_programs", 1);
+    out.count("input_comments", input.parsed.comments.len() as u64);
+    out.count("input_tokens", input.parsed.nontrivia_tokens as u64);
+    if !input.parsed.comments.is_empty() {
+        out.count("valid_programs_with_comments", 1);
+    }
+    let mut kinds = BTreeSet::new();
+    input.parsed.tree.kinds(&mut kinds);
+    input.expr.0.kinds(&mut kinds);
+    for k in kinds {
+        out.set("ast_node_kinds_seen", k);
+    }
+    for ch in input.cst.chain.values() {
+        for (_, p) in ch {
+            out.set("cst_node_kinds_seen", format!("{p:?}"));
+        }
+    }
+    let origin_class = c.origin.split(':').take(2).collect::<Vec<_>>().join(":");
+    out.set("origins", if c.origin.starts_with("corpus") { "corpus".to_string() } else { origin_class });
+    let mut memo: HashMap<String, Vec<Viol>> = HashMap::new();
+    let mut outputs: BTreeSet<String> = BTreeSet::new();
+    let mut reported: BTreeSet<String> = BTreeSet::new();
+    let mut all_held = true;
+    for &(w, i) in &c.configs {
+        out.count("configs_run", 1);
+        out.set("configs_seen", format!("w{w}/i{i}"));
+        match check_config(&input, w, i, &mut memo, out) {
+            Ok(obs) => {
+                out.count("configs_all_clauses_held", 1);
+                if obs.changed {
+                    out.count("configs_where_output_differs_from_input", 1);
+                }
+                outputs.insert(fp(&obs.output));
+            }
+            Err(vs) => {
+                all_held = false;
+                for v in vs {
+                    if reported.insert(v.sig.clone()) {
+                        let key = format!("refuting_events:{}", v.sig);
+                        let seen = out.counters.get(&key).copied().unwrap_or(0);
+                        out.count(&key, 1);
+                        if seen < ctx.max_viol_per_sig {
+                            let one = Case { origin: c.origin.clone(), src: c.src.clone(), configs: vec![(v.width, v.indent)], rel_path: c.rel_path.clone() };
+                            out.violation(
+                                idx,
+                                &v.sig,
+                                &format!("width={} indent={} origin={}\n{}\n--- input\n{}", v.width, v.indent, c.origin, v.detail, clip(&c.src, 1500)),
+                                &serde_json::to_value(&one).unwrap(),
+                            );
+                        }
+                    }
+                }
+            }
+        }
+    }
+    if outputs.len() >= 2 {
+        out.count("valid_programs_whose_layout_depends_on_config", 1);
+    }
+    out.count("distinct_outputs", outputs.len() as u64);
+    if all_held {
+        out.count("valid_programs_on_which_every_clause_held_at_every_config", 1);
+    }
+    all_held
+}
+
+// =====================================================================================
+// corpus
+// =====================================================================================
+
+pub const CORPUS_DIRS: [&str; 4] = ["lib", "examples", "crates/lib/mimium-test/tests/mmm", "crates/bin/mimium-fmt/tests"];
+
+pub fn corpus_files(repo: &str) -> Vec<(String, String)> {
+    let mut v = vec![];
+    for d in CORPUS_DIRS {
+        let dir = PathBuf::from(repo).join(d);
+        let Ok(rd) = std::fs::read_dir(&dir) else { continue };
+        let mut names: Vec<_> = rd.filter_map(|e| e.ok()).map(|e| e.file_name().to_string_lossy().to_string()).filter(|n| n.ends_with(".mmm")).collect();
+        names.sort();
+        for nme in names {
+            if let Ok(txt) = std::fs::read_to_string(dir.join(&nme)) {
+                v.push((format!("{d}/{nme}"), txt.replace("\r\n", "\n")));
+            }
+        }
+    }
+    v
+}
+
+/// (mutants of corpus files, generated programs); `MUT_BATCH`/`GEN_BATCH` programs form one case
+fn plan(args: &Args) -> (usize, usize) {
+    if args.thorough() { (6000, 24000) } else { (700, 2000) }
+}
+const MUT_BATCH: usize = 4;
+const GEN_BATCH: usize = 8;
+
+/// What the driver iterates over: one program, or a block of programs (keeps the event stream small).
+#[derive(Clone, Debug, Serialize, Deserialize)]
+#[serde(untagged)]
+pub enum Unit {
+    One(Case),
+    Many { items: Vec<Case> },
+}
+
+pub fn meta(args: &Args) -> Value {
+    let (m, g) = plan(args);
+    json!({
+        "level": "exploration",
+        "rule": format!("every program text is run at all 24 configurations (widths {WIDTHS:?} x indents {INDENTS:?}; GLOBAL_DATA.indent_size set before each call). Texts: (a) every *.mmm under lib/, examples/, crates/lib/mimium-test/tests/mmm/, crates/bin/mimium-fmt/tests/ of the repository under test, one case each; (b) {m} layout/comment mutations of them (token stream of the real tokenizer re-emitted with random spacing, line breaks, `;` and numbered comments of both kinds at token boundaries), {MUT_BATCH} per case; (c) {g} generated programs (functions, let/letrec, patterns, tuples, records and record update, arrays, if/else, lambdas, all infix operators incl. pipes, calls, field/index access, match, macro definitions and expansions, quote/escape, type annotations and declarations, modules, use, include, stage declarations) printed with randomised layout (5 styles) and comments, {GEN_BATCH} per case; half of (b) and (c) avoid the constructs of the known findings so that the AST and fixed-point clauses are reached. Only texts on which parse_program reports no error take part ('syntactically valid'); the others are counted under texts_rejected_by_parser and ignored. A program counts (valid_programs_on_which_every_clause_held_at_every_config) iff it is valid, has at least one token, and every clause (format ok, output parses, parse_program tree equal, parse_to_expr tree equal, comments kept in order, second pass identical) was evaluated and held at all 24 configurations; a case is non-trivial iff at least one of its programs counts. Distinctness = hash of the case (texts + configurations)."),
+        "assumptions": [
+            "'syntactically valid' is decided by the real parser (parse_program reports no ParserError); lowering errors (Expr::Error nodes) are compared like any other node",
+            "AST equality = equality of a span-free tree built from the public Program/Expr/Type/Pattern enums by the harness (Paren nodes included; spans, interned ids and type-variable identities excluded)",
+            "comments are extracted with the real tokenizer; the clause checked is 'input comment texts (right-trimmed) occur in the output in input order'; additional comments in the output are only counted",
+            "clauses that depend only on the output text are evaluated once per distinct output of a program; the fixed-point clause is not evaluated at a configuration whose output already fails the parse or AST clause",
+            "violation signatures name the clause and the nearest observable cause (token-sequence change, parser-relevant line-break change, owner token of a lost comment) computed from the real tokenizer, pre-parser and CST; only the first cause per output is named"
+        ],
+        "floor": {"quick": 250, "thorough": 2500},
+        "exhaustive": false,
+        "case_timeout_s": 120,
+        "hang_is_violation": false,
+    })
+}
+
+pub fn run(args: &Args, out: &mut Out) {
+    if let Some(f) = args.extra.get("file") {
+        return dev_probe(args, f);
+    }
+    if let Some(f) = args.extra.get("minimize") {
+        return dev_minimize(args, f);
+    }
+    let corpus = corpus_files(&args.repo);
+    let (nm, ng) = plan(args);
+    let nc = corpus.len();
+    let (mb, gb) = (nm.div_ceil(MUT_BATCH), ng.div_ceil(GEN_BATCH));
+    let total = args.budget.map(|b| b.min(nc + mb + gb)).unwrap_or(nc + mb + gb);
+    out.max_samples = 1;
+    let ctx = ExecCtx { repo: args.repo.clone(), max_viol_per_sig: 3 };
+    let quarantine = args.quarantine.clone();
+    drive(
+        args,
+        out,
+        total,
+        |idx, rng| {
+            if idx < nc {
+                let (rel, txt) = &corpus[idx];
+                Some(Unit::One(Case { origin: format!("corpus:{rel}"), src: txt.clone(), configs: all_configs(), rel_path: Some(rel.clone()) }))
+            } else if idx < nc + mb {
+                if corpus.is_empty() {
+                    return None;
+                }
+                let items = (0..MUT_BATCH)
+                    .map(|_| {
+                        let (rel, txt) = rng.pick(&corpus).clone();
+                        let (kind, src) = mutate_layout(rng, &txt);
+                        Case { origin: format!("mut:{kind}:{rel}"), src, configs: all_configs(), rel_path: Some(rel) }
+                    })
+                    .collect();
+                Some(Unit::Many { items })
+            } else {
+                let items = (0..GEN_BATCH).map(|_| Case { origin: "gen".into(), src: gen_program(rng, &quarantine), configs: all_configs(), rel_path: None }).collect();
+                Some(Unit::Many { items })
+            }
+        },
+        |u, idx, out| exec_unit(&ctx, u, idx, out),
+    );
+}
+
+fn exec_unit(ctx: &ExecCtx, u: &Unit, idx: usize, out: &mut Out) -> bool {
+    match u {
+        Unit::One(c) => exec_case(ctx, c, idx, out),
+        Unit::Many { items } => {
+            let mut any = false;
+            for c in items {
+                any |= exec_case(ctx, c, idx, out);
+            }
+            any
+        }
+    }
+}
+
+pub fn replay(args: &Args, out: &mut Out, case: &Value) {
+    let ctx = ExecCtx { repo: args.repo.clone(), max_viol_per_sig: 100 };
+    replay_one::<Unit>(out, case, |u, idx, out| exec_unit(&ctx, u, idx, out));
+}
+
+// =====================================================================================
+// layout / comment mutation of an existing text
+// =====================================================================================
+
+/// Re-emit the token stream of `txt` (real tokenizer) with new trivia. In the `*-clean`
+/// variants no comment is placed where the unchanged formatter is known to lose it
+/// (next to a separator comma, after `}`, before `}`/`{`, inside a `use` statement).
+pub fn mutate_layout(rng: &mut Rng, txt: &str) -> (&'static str, String) {
+    let toks = parser::tokenize(txt);
+    let kind = *rng.pick(&["comments", "comments-clean", "relayout", "squeeze", "both", "both-clean"]);
+    let clean = kind.ends_with("-clean");
+    let comments = kind.starts_with("comments") || kind.starts_with("both");
+    let relayout = kind == "relayout" || kind.starts_with("both");
+    let mut s = String::new();
+    let mut counter = 0;
+    let mut prev_tok = String::new();
+    let mut in_use = false;
+    let p_comment = if comments { rng.range(2, 12) as u32 } else { 0 };
+    for (i, t) in toks.iter().enumerate() {
+        if t.kind == TokenKind::Eof {
+            break;
+        }
+        let text = t.text(txt);
+        if !t.is_trivia() {
+            s.push_str(text);
+            prev_tok = text.to_string();
+            if text == "use" {
+                in_use = true;
+            }
+            continue;
+        }
+        let next_tok = toks[i + 1..].iter().find(|x| !x.is_trivia()).map(|x| x.text(txt)).unwrap_or("");
+        let ok_here = !clean || !(prev_tok == "," || prev_tok == "}" || next_tok == "," || next_tok == "}" || next_tok == "{" || in_use || prev_tok.is_empty());
+        match t.kind {
+            TokenKind::SingleLineComment | TokenKind::MultiLineComment => s.push_str(text),
+            TokenKind::LineBreak => {
+                in_use = false;
+                // `;` and newlines are statement separators: keep one, vary the rest
+                if relayout {
+                    if text.contains(';') && rng.chance(1, 2) {
+                        s.push(';');
+                    } else {
+                        s.push('\n');
+                    }
+                    if rng.chance(1, 6) {
+                        s.push('\n');
+                    }
+                    for _ in 0..rng.below(9) {
+                        s.push(' ');
+                    }
+                } else if kind == "squeeze" {
+                    s.push_str(if text.contains(';') { ";" } else { "\n" });
+                } else {
+                    s.push_str(text);
+                }
+                if ok_here && p_comment > 0 && rng.chance(p_comment, 100) {
+                    counter += 1;
+                    if rng.chance(1, 2) {
+                        s.push_str(&format!("// c{counter}\n"));
+                    } else {
+                        s.push_str(&format!("/* c{counter} */"));
+                    }
+                }
+            }
+            TokenKind::Whitespace => {
+                if kind == "squeeze" {
+                    s.push(' ');
+                } else if relayout {
+                    s.push(' ');
+                    if rng.chance(1, 5) {
+                        s.push_str("  ");
+                    }
+                    if rng.chance(1, 25) {
+                        // a line break where there was only a blank: may or may not stay valid
+                        s.push('\n');
+                    }
+                } else {
+                    s.push_str(text);
+                }
+                if ok_here && p_comment > 0 && rng.chance(p_comment, 100) {
+                    counter += 1;
+                    if rng.chance(1, 3) {
+                        s.push_str(&format!("// c{counter}\n"));
+                    } else {
+                        s.push_str(&format!("/* c{counter} */ "));
+                    }
+                }
+            }
+            _ => s.push_str(text),
+        }
+    }
+    (kind, s)
+}
+
+// =====================================================================================
+// generator of syntactically valid programs with randomised layout
+// =====================================================================================
+
+/// Gap before a token.
+#[derive(Clone, Copy, Debug, PartialEq, Eq)]
+enum Gap {
+    /// nothing needed; anything allowed in risky mode
+    Free,
+    /// a line break here is known to be harmless
+    NlOk,
+    /// a statement separator (line break or `;`) is required
+    Sep,
+    /// must stay on the same line, no trivia with line breaks (callee-`(`, `[`)
+    Tight,
+    /// no trivia at all (inside `a.0.1` chains: the tokenizer only splits `0.1` right after a dot)
+    Glue,
+}
+
+/// Constructs for which the formatter is known to be wrong on the unchanged tree (see
+/// KNOWN_FINDINGS.txt). Half of the generated programs avoid all of them, so that the clauses
+/// behind the parse clause (AST equality, idempotence) are exercised on programs the formatter
+/// can handle; each program of the other half uses exactly one of them.
+#[derive(Clone, Copy, Debug, Default)]
+pub struct Feat {
+    typed_params: bool,
+    param_defaults: bool,
+    record_type: bool,
+    record_pattern: bool,
+    match_expr: bool,
+    type_decl: bool,
+    macro_decl: bool,
+    empty_lambda: bool,
+    one_tuple: bool,
+    use_in_module: bool,
+    /// then-branch of an `if` on the next line (joined with the condition when it starts with a bracket)
+    then_on_next_line: bool,
+    /// comments next to separator commas, after `}` / on a line of their own before `}`, inside `use {..}`
+    comments_anywhere: bool,
+}
+impl Feat {
+    fn pick(rng: &mut Rng) -> Feat {
+        if rng.chance(1, 2) {
+            return Feat::default();
+        }
+        // one construct per program: interactions of two known defects produce an open-ended
+        // family of symptoms without showing anything new
+        let mut f = Feat { comments_anywhere: rng.chance(1, 3), ..Feat::default() };
+        match rng.below(12) {
+            0 => f.typed_params = true,
+            1 => f.param_defaults = true,
+            2 => f.record_type = true,
+            3 => f.record_pattern = true,
+            4 => f.match_expr = true,
+            5 => f.type_decl = true,
+            6 => f.macro_decl = true,
+            7 => f.empty_lambda = true,
+            8 => f.one_tuple = true,
+            9 => f.use_in_module = true,
+            10 => f.then_on_next_line = true,
+            _ => f.comments_anywhere = true,
+        }
+        f
+    }
+    fn any(&self) -> bool {
+        self.typed_params || self.param_defaults || self.record_type || self.record_pattern || self.match_expr || self.type_decl || self.macro_decl || self.empty_lambda || self.one_tuple || self.use_in_module || self.then_on_next_line || self.comments_anywhere
+    }
+}
+
+struct G<'a> {
+    feat: Feat,
+    rng: &'a mut Rng,
+    toks: Vec<(Gap, String)>,
+    depth: usize,
+    budget: isize,
+    q: &'a BTreeSet<String>,
+    names: usize,
+}
+
+const IDENTS: [&str; 14] = ["x", "y", "freq", "gain", "phase", "acc", "foo", "bar_baz", "osc1", "n", "cutoff_hz", "i", "tmp", "sig"];
+const FNAMES: [&str; 8] = ["dsp", "osc", "lowpass", "mix", "helper", "counter", "env", "f"];
+const MODS: [&str; 4] = ["util", "math", "dspmod", "m"];
+const TYNAMES: [&str; 4] = ["Shape", "Num", "MyT", "Opt"];
+const CTORS: [&str; 5] = ["Circle", "Rect", "One", "Two", "Nil"];
+const BINOPS: [&str; 17] = ["+", "-", "*", "/", "%", "^", "&&", "||", "==", "!=", "<", ">", "<=", ">=", "@", "|>", "||>"];
+
+impl<'a> G<'a> {
+    fn t(&mut self, gap: Gap, s: &str) {
+        self.toks.push((gap, s.to_string()));
+        self.budget -= 1;
+    }
+    fn free(&mut self, s: &str) {
+        self.t(Gap::Free, s)
+    }
+    fn nl(&mut self, s: &str) {
+        self.t(Gap::NlOk, s)
+    }
+    fn ident(&mut self) -> String {
+        self.rng.pick(&IDENTS).to_string()
+    }
+    fn small(&self) -> bool {
+        self.depth > 5 || self.budget <= 0
+    }
+
+    fn ty(&mut self, gap: Gap) {
+        let k = if self.small() { self.rng.below(3) } else { self.rng.below(10) };
+        match k {
+            0 => self.t(gap, "float"),
+            1 => self.t(gap, "int"),
+            2 => self.t(gap, "string"),
+            3 => {
+                // tuple type
+                self.t(gap, "(");
+                let nn = self.rng.range(2, 3);
+                self.depth += 1;
+                for i in 0..nn {
+                    if i > 0 {
+                        self.free(",");
+                    }
+                    self.ty(Gap::NlOk);
+                }
+                self.depth -= 1;
+                self.nl(")");
+            }
+            4 if !self.feat.record_type => self.t(gap, "float"),
+            4 => {
+                self.t(gap, "{");
+                let nn = self.rng.range(1, 3);
+                self.depth += 1;
+                for i in 0..nn {
+                    if i > 0 {
+                        self.free(",");
+                    }
+                    let id = self.ident();
+                    self.nl(&id);
+                    self.free(":");
+                    self.ty(Gap::Free);
+                }
+                self.depth -= 1;
+                self.nl("}");
+            }
+            5 => {
+                self.t(gap, "[");
+                self.depth += 1;
+                self.ty(Gap::Free);
+                self.depth -= 1;
+                self.free("]");
+            }
+            6 => {
+                // function type
+                self.t(gap, "(");
+                let nn = self.rng.range(0, 2);
+                self.depth += 1;
+                for i in 0..nn {
+                    if i > 0 {
+                        self.free(",");
+                    }
+                    self.ty(Gap::Free);
+                }
+                self.free(")");
+                self.free("->");
+                self.ty(Gap::Free);
+                self.depth -= 1;
+            }
+            7 => {
+                self.t(gap, "`");
+                self.depth += 1;
+                self.ty(Gap::Free);
+                self.depth -= 1;
+            }
+            8 => {
+                let nme = self.rng.pick(&TYNAMES).to_string();
+                self.t(gap, &nme);
+            }
+            _ => {
+                self.t(gap, "(");
+                self.free(")");
+            }
+        }
+    }
+
+    fn pattern(&mut self, gap: Gap) {
+        let k = if self.small() { self.rng.below(2) } else { self.rng.weighted(&[6, 1, 2, if self.feat.record_pattern { 1 } else { 0 }]) };
+        match k {
+            0 => {
+                let id = self.ident();
+                self.t(gap, &id)
+            }
+            1 => self.t(gap, "_"),
+            2 => {
+                self.t(gap, "(");
+                let nn = self.rng.range(2, 3);
+                self.depth += 1;
+                for i in 0..nn {
+                    if i > 0 {
+                        self.free(",");
+                    }
+                    self.pattern(Gap::NlOk);
+                }
+                self.depth -= 1;
+                self.nl(")");
+            }
+            _ => {
+                self.t(gap, "{");
+                let nn = self.rng.range(1, 2);
+                self.depth += 1;
+                for i in 0..nn {
+                    if i > 0 {
+                        self.free(",");
+                    }
+                    let id = self.ident();
+                    self.nl(&id);
+                    self.free("=");
+                    self.pattern(Gap::Free);
+                }
+                self.depth -= 1;
+                self.nl("}");
+            }
+        }
+    }
+
+    fn params(&mut self, defaults: bool) {
+        self.t(Gap::Free, "(");
+        let nn = self.rng.below(4);
+        for i in 0..nn {
+            if i > 0 {
+                self.free(",");
+            }
+            let id = self.ident();
+            self.nl(&id);
+            if self.feat.typed_params && self.rng.chance(1, 2) {
+                self.free(":");
+                self.depth += 2;
+                self.ty(Gap::Free);
+                self.depth -= 2;
+            }
+            if defaults && self.feat.param_defaults && self.rng.chance(1, 3) {
+                self.free("=");
+                self.depth += 3;
+                self.expr(Gap::Free, 3);
+                self.depth -= 3;
+            }
+        }
+        self.nl(")");
+    }
+
+    fn literal(&mut self, gap: Gap) {
+        let k = self.rng.weighted(&[5, 5, 1, 2, 1, 1]);
+        let s = match k {
+            0 => format!("{}", self.rng.below(2000)),
+            1 => format!("{}.{}", self.rng.below(500), self.rng.below(100)),
+            2 => format!("\"s{}\"", self.rng.below(10)),
+            3 => "self".to_string(),
+            4 => "now".to_string(),
+            _ => "samplerate".to_string(),
+        };
+        self.t(gap, &s);
+    }
+
+    fn args(&mut self) {
+        // "(" of a call must stay on the callee's line
+        self.t(Gap::Tight, "(");
+        let nn = self.rng.below(4);
+        self.depth += 1;
+        for i in 0..nn {
+            if i > 0 {
+                self.free(",");
+            }
+            self.expr(Gap::NlOk, 0);
+        }
+        self.depth -= 1;
+        self.nl(")");
+    }
+
+    /// an atom, possibly with postfix operations
+    fn postfix(&mut self, gap: Gap) {
+        let k = if self.small() { self.rng.weighted(&[5, 5, 0, 0, 0, 0, 0, 0, 0, 0, 0, 0]) } else { self.rng.weighted(&[8, 8, 5, 3, 3, 2, 3, 2, 2, 2, 2, 1]) };
+        match k {
+            0 => self.literal(gap),
+            1 => {
+                let id = self.ident();
+                self.t(gap, &id)
+            }
+            2 => {
+                // call
+                let f = if self.rng.chance(1, 5) { self.ident() } else { self.rng.pick(&FNAMES).to_string() };
+                if self.rng.chance(1, 8) {
+                    let m = self.rng.pick(&MODS).to_string();
+                    self.t(gap, &m);
+                    self.t(Gap::Free, "::");
+                    self.t(Gap::Free, &f);
+                } else {
+                    self.t(gap, &f);
+                }
+                self.args();
+                if self.rng.chance(1, 10) {
+                    self.args();
+                }
+            }
+            3 => {
+                // paren
+                self.t(gap, "(");
+                self.depth += 1;
+                self.expr(Gap::NlOk, 0);
+                self.depth -= 1;
+                self.nl(")");
+            }
+            4 => {
+                // tuple
+                self.t(gap, "(");
+                let one = self.feat.one_tuple && self.rng.chance(1, 3);
+                let nn = if one { 1 } else { self.rng.range(2, 4) };
+                self.depth += 1;
+                for i in 0..nn {
+                    if i > 0 {
+                        self.free(",");
+                    }
+                    self.expr(Gap::NlOk, 0);
+                }
+                self.depth -= 1;
+                if one || self.rng.chance(1, 8) {
+                    self.free(",");
+                }
+                self.nl(")");
+            }
+            5 => {
+                // array
+                self.t(gap, "[");
+                let nn = self.rng.range(0, 4);
+                self.depth += 1;
+                for i in 0..nn {
+                    if i > 0 {
+                        self.free(",");
+                    }
+                    self.expr(Gap::NlOk, 0);
+                }
+                self.depth -= 1;
+                self.nl("]");
+            }
+            6 => {
+                // record literal / update / incomplete
+                self.t(gap, "{");
+                let form = self.rng.weighted(&[5, 2, 2]);
+                self.depth += 1;
+                if form == 1 {
+                    let id = self.ident();
+                    self.nl(&id);
+                    self.free("<-");
+                }
+                let nn = self.rng.range(1, 3);
+                for i in 0..nn {
+                    if i > 0 {
+                        self.free(",");
+                    }
+                    let id = self.ident();
+                    self.nl(&id);
+                    self.free("=");
+                    self.expr(Gap::Free, 0);
+                }
+                if form == 2 {
+                    self.free(",");
+                    self.nl("..");
+                }
+                self.depth -= 1;
+                self.nl("}");
+            }
+            7 => {
+                // macro expansion
+                let f = self.rng.pick(&FNAMES).to_string();
+                self.t(gap, &f);
+                self.t(Gap::Free, "!");
+                self.t(Gap::Free, "(");
+                let nn = self.rng.below(3);
+                self.depth += 1;
+                for i in 0..nn {
+                    if i > 0 {
+                        self.free(",");
+                    }
+                    self.expr(Gap::NlOk, 0);
+                }
+                self.depth -= 1;
+                self.nl(")");
+            }
+            8 => {
+                // field access / projection on a simple base
+                let id = self.ident();
+                self.t(gap, &id);
+                let nn = self.rng.range(1, 2);
+                for _ in 0..nn {
+                    self.t(Gap::Glue, ".");
+                    if self.rng.chance(1, 2) {
+                        let f = self.ident();
+                        self.t(Gap::Glue, &f);
+                    } else {
+                        let k = format!("{}", self.rng.below(3));
+                        self.t(Gap::Glue, &k);
+                    }
+                }
+            }
+            9 => {
+                // index
+                let id = self.ident();
+                self.t(gap, &id);
+                self.t(Gap::Tight, "[");
+                self.depth += 1;
+                self.expr(Gap::Free, 0);
+                self.depth -= 1;
+                self.free("]");
+            }
+            10 => {
+                // block as expression
+                self.block(gap);
+            }
+            _ => self.t(gap, "_"),
+        }
+    }
+
+    fn unary(&mut self, gap: Gap) {
+        let k = if self.small() { 0 } else { self.rng.weighted(&[30, 3, 2, 2]) };
+        match k {
+            0 => self.postfix(gap),
+            1 => {
+                self.t(gap, "-");
+                self.depth += 1;
+                self.postfix(Gap::Free);
+                self.depth -= 1;
+            }
+            2 => {
+                self.t(gap, "`");
+                self.depth += 1;
+                if self.rng.chance(1, 2) {
+                    self.block(Gap::Free);
+                } else {
+                    self.postfix(Gap::Free);
+                }
+                self.depth -= 1;
+            }
+            _ => {
+                self.t(gap, "$");
+                self.depth += 1;
+                self.postfix(Gap::Free);
+                self.depth -= 1;
+            }
+        }
+    }
+
+    /// expression; `ctx` 0 = anything, 3 = no statement-level forms (param default)
+    fn expr(&mut self, gap: Gap, ctx: u8) {
+        self.depth += 1;
+        let k = if self.small() { 0 } else if ctx == 3 { self.rng.weighted(&[6, 4, 0, 0, 0]) } else { self.rng.weighted(&[10, 10, 3, 3, 2]) };
+        match k {
+            0 => self.unary(gap),
+            1 => {
+                // binary chain
+                self.unary(gap);
+                let nn = self.rng.range(1, 4);
+                for _ in 0..nn {
+                    let op = self.rng.pick(&BINOPS).to_string();
+                    // a break before an infix operator continues the expression, after it too
+                    let g = if self.rng.chance(1, 2) { Gap::NlOk } else { Gap::Free };
+                    self.t(g, &op);
+                    self.unary(Gap::NlOk);
+                }
+            }
+            2 => {
+                // lambda
+                self.t(gap, "|");
+                let mut nn = self.rng.below(3);
+                if nn == 0 && !self.feat.empty_lambda {
+                    nn = 1;
+                }
+                for i in 0..nn {
+                    if i > 0 {
+                        self.free(",");
+                    }
+                    let id = self.ident();
+                    self.free(&id);
+                    if self.rng.chance(1, 4) {
+                        self.free(":");
+                        self.depth += 3;
+                        self.ty(Gap::Free);
+                        self.depth -= 3;
+                    }
+                }
+                // `||` would be the OR operator: the renderer separates tokens that would glue
+                self.free("|");
+                if self.rng.chance(1, 6) {
+                    self.free("->");
+                    self.depth += 3;
+                    self.ty(Gap::Free);
+                    self.depth -= 3;
+                }
+                if self.rng.chance(1, 3) {
+                    self.block(Gap::Free);
+                } else {
+                    self.expr(Gap::NlOk, 0);
+                }
+            }
+            3 => {
+                // if
+                self.t(gap, "if");
+                self.free("(");
+                self.expr(Gap::Free, 0);
+                self.free(")");
+                let blocks = self.rng.chance(1, 2);
+                let then_gap = if self.feat.then_on_next_line { Gap::NlOk } else { Gap::Tight };
+                if blocks {
+                    self.block(Gap::Free);
+                } else {
+                    self.unary(then_gap);
+                }
+                if self.rng.chance(3, 4) {
+                    self.nl("else");
+                    if self.rng.chance(1, 5) {
+                        self.t(Gap::Free, "if");
+                        self.free("(");
+                        self.expr(Gap::Free, 0);
+                        self.free(")");
+                        self.block(Gap::Free);
+                        self.nl("else");
+                        self.block(Gap::Free);
+                    } else if blocks {
+                        self.block(Gap::Free);
+                    } else {
+                        self.unary(Gap::NlOk);
+                    }
+                }
+            }
+            _ => {
+                if self.q.contains("match-expr") || !self.feat.match_expr {
+                    self.unary(gap);
+                } else {
+                    self.match_expr(gap);
+                }
+            }
+        }
+        self.depth -= 1;
+    }
+
+    fn match_pattern(&mut self, gap: Gap, d: usize) {
+        let k = if d > 1 { self.rng.weighted(&[3, 2, 2, 2, 0]) } else { self.rng.weighted(&[3, 2, 2, 4, 2]) };
+        match k {
+            0 => {
+                let s = format!("{}", self.rng.below(10));
+                self.t(gap, &s)
+            }
+            1 => {
+                let s = format!("{}.{}", self.rng.below(10), self.rng.below(10));
+                self.t(gap, &s)
+            }
+            2 => self.t(gap, "_"),
+            3 => {
+                let c = if self.rng.chance(1, 4) { self.rng.pick(&["float", "int", "string"]).to_string() } else { self.rng.pick(&CTORS).to_string() };
+                self.t(gap, &c);
+                match self.rng.below(4) {
+                    0 => {}
+                    1 => {
+                        self.free("(");
+                        let id = self.ident();
+                        self.free(&id);
+                        self.free(")");
+                    }
+                    2 => {
+                        self.free("(");
+                        self.free("_");
+                        self.free(")");
+                    }
+                    _ => {
+                        self.free("(");
+                        let a = self.ident();
+                        self.free(&a);
+                        self.free(",");
+                        let b = self.ident();
+                        self.free(&b);
+                        self.free(")");
+                    }
+                }
+            }
+            _ => {
+                self.t(gap, "(");
+                let nn = self.rng.range(2, 3);
+                for i in 0..nn {
+                    if i > 0 {
+                        self.free(",");
+                    }
+                    self.match_pattern(Gap::Free, d + 1);
+                }
+                self.free(")");
+            }
+        }
+    }
+
+    fn match_expr(&mut self, gap: Gap) {
+        self.t(gap, "match");
+        let id = self.ident();
+        self.free(&id);
+        self.free("{");
+        let nn = self.rng.range(1, 4);
+        let commas = self.rng.chance(1, 2);
+        for i in 0..nn {
+            if i > 0 {
+                if commas {
+                    self.free(",");
+                    self.match_pattern(Gap::NlOk, 0);
+                } else {
+                    self.match_pattern(Gap::Sep, 0);
+                }
+            } else {
+                self.match_pattern(Gap::NlOk, 0);
+            }
+            self.free("=>");
+            if self.rng.chance(1, 4) {
+                self.block(Gap::Free);
+            } else {
+                self.unary(Gap::Free);
+            }
+        }
+        self.nl("}");
+    }
+
+    fn block(&mut self, gap: Gap) {
+        self.t(gap, "{");
+        self.depth += 1;
+        let nn = if self.small() { 1 } else { self.rng.range(1, 4) };
+        for i in 0..nn {
+            let g = if i == 0 { Gap::NlOk } else { Gap::Sep };
+            if i + 1 < nn {
+                self.local_stmt(g);
+            } else {
+                self.expr(g, 0);
+            }
+        }
+        self.depth -= 1;
+        self.nl("}");
+    }
+
+    fn local_stmt(&mut self, gap: Gap) {
+        match self.rng.weighted(&[6, 1, 2, 2]) {
+            0 => self.let_stmt(gap),
+            1 => {
+                self.t(gap, "letrec");
+                let id = self.ident();
+                self.free(&id);
+                self.free("=");
+                self.expr(Gap::NlOk, 0);
+            }
+            2 => {
+                // assignment
+                let id = self.ident();
+                self.t(gap, &id);
+                self.free("=");
+                self.expr(Gap::NlOk, 0);
+            }
+            _ => self.expr(gap, 0),
+        }
+    }
+
+    fn let_stmt(&mut self, gap: Gap) {
+        self.t(gap, "let");
+        self.pattern(Gap::Free);
+        if self.rng.chance(1, 5) {
+            self.free(":");
+            self.depth += 2;
+            self.ty(Gap::Free);
+            self.depth -= 2;
+        }
+        self.free("=");
+        self.expr(Gap::NlOk, 0);
+    }
+
+    fn fn_decl(&mut self, gap: Gap, allow_pub: bool) {
+        let mut g = gap;
+        if allow_pub && self.rng.chance(1, 3) {
+            self.t(g, "pub");
+            g = Gap::Free;
+        }
+        let is_macro = self.rng.chance(1, 8) && !self.q.contains("macro-decl") && self.feat.macro_decl;
+        self.t(g, if is_macro { "macro" } else { "fn" });
+        self.names += 1;
+        let nme = if self.names == 1 { "dsp".to_string() } else { format!("{}{}", self.rng.pick(&FNAMES), self.names) };
+        self.free(&nme);
+        self.params(true);
+        if self.rng.chance(1, 4) {
+            self.free("->");
+            self.depth += 2;
+            self.ty(Gap::Free);
+            self.depth -= 2;
+        }
+        self.block(Gap::Free);
+    }
+
+    fn top_stmt(&mut self, gap: Gap, in_mod: bool) {
+        let k = self.rng.weighted(&[10, 5, 1, 1, 1, if in_mod { 1 } else { 2 }, 2, 2, 2, 1]);
+        match k {
+            0 => self.fn_decl(gap, true),
+            1 => self.let_stmt(gap),
+            2 => {
+                self.t(gap, "letrec");
+                let id = self.ident();
+                self.free(&id);
+                self.free("=");
+                self.expr(Gap::NlOk, 0);
+            }
+            3 => {
+                self.t(gap, "include");
+                self.free("(");
+                let f = format!("\"{}.mmm\"", self.rng.pick(&["osc", "math", "filter"]));
+                self.free(&f);
+                self.free(")");
+            }
+            4 => {
+                self.t(gap, "#");
+                self.free("stage");
+                self.free("(");
+                let s = self.rng.pick(&["main", "macro"]).to_string();
+                self.free(&s);
+                self.free(")");
+            }
+            5 => {
+                // module
+                let mut g = gap;
+                if self.rng.chance(1, 3) {
+                    self.t(g, "pub");
+                    g = Gap::Free;
+                }
+                self.t(g, "mod");
+                let m = self.rng.pick(&MODS).to_string();
+                self.free(&m);
+                self.free("{");
+                self.depth += 2;
+                let nn = self.rng.range(1, 3);
+                for i in 0..nn {
+                    let g = if i == 0 { Gap::NlOk } else { Gap::Sep };
+                    if self.feat.use_in_module {
+                        self.top_stmt(g, true);
+                    } else {
+                        // statements of a module body are printed without a separator: only
+                        // statements that end in a closing bracket keep the text parseable
+                        self.fn_decl(g, true);
+                    }
+                }
+                self.depth -= 2;
+                self.nl("}");
+            }
+            6 => {
+                // use
+                let mut g = gap;
+                if self.rng.chance(1, 4) {
+                    self.t(g, "pub");
+                    g = Gap::Free;
+                }
+                self.t(g, "use");
+                let m = self.rng.pick(&MODS).to_string();
+                self.free(&m);
+                if self.rng.chance(1, 3) {
+                    self.free("::");
+                    let m2 = self.rng.pick(&MODS).to_string();
+                    self.free(&m2);
+                }
+                self.free("::");
+                match self.rng.below(3) {
+                    0 => {
+                        let f = self.rng.pick(&FNAMES).to_string();
+                        self.free(&f);
+                    }
+                    1 => {
+                        self.free("{");
+                        let nn = self.rng.range(1, 3);
+                        for i in 0..nn {
+                            if i > 0 {
+                                self.free(",");
+                            }
+                            let f = self.rng.pick(&FNAMES).to_string();
+                            self.free(&f);
+                        }
+                        self.free("}");
+                    }
+                    _ => self.free("*"),
+                }
+            }
+            7 => {
+                // type declarations
+                if self.q.contains("type-decl") || !self.feat.type_decl {
+                    return self.let_stmt(gap);
+                }
+                let mut g = gap;
+                if self.rng.chance(1, 4) {
+                    self.t(g, "pub");
+                    g = Gap::Free;
+                }
+                self.t(g, "type");
+                if self.rng.chance(1, 3) {
+                    self.free("alias");
+                    let nme = self.rng.pick(&TYNAMES).to_string();
+                    self.free(&nme);
+                    self.free("=");
+                    self.depth += 1;
+                    self.ty(Gap::Free);
+                    self.depth -= 1;
+                } else {
+                    if self.rng.chance(1, 3) {
+                        self.free("rec");
+                    }
+                    let nme = self.rng.pick(&TYNAMES).to_string();
+                    self.free(&nme);
+                    self.free("=");
+                    let nn = self.rng.range(1, 3);
+                    for i in 0..nn {
+                        if i > 0 {
+                            self.free("|");
+                        }
+                        let c = self.rng.pick(&CTORS).to_string();
+                        self.free(&c);
+                        if self.rng.chance(1, 2) {
+                            self.free("(");
+                            self.depth += 3;
+                            self.ty(Gap::Free);
+                            if self.rng.chance(1, 3) {
+                                self.free(",");
+                                self.ty(Gap::Free);
+                            }
+                            self.depth -= 3;
+                            self.free(")");
+                        }
+                    }
+                }
+            }
+            8 => {
+                // global expression statement / assignment
+                if self.rng.chance(1, 2) {
+                    let id = self.ident();
+                    self.t(gap, &id);
+                    self.free("=");
+                    self.expr(Gap::NlOk, 0);
+                } else {
+                    self.expr(gap, 0);
+                }
+            }
+            _ => self.fn_decl(gap, false),
+        }
+    }
+}
+
+/// Does `a` immediately followed by `b` tokenize differently from the two tokens apart?
+fn glues(cache: &mut HashMap<(String, String), bool>, a: &str, b: &str) -> bool {
+    if a.is_empty() {
+        return false;
+    }
+    let key = (a.to_string(), b.to_string());
+    if let Some(v) = cache.get(&key) {
+        return *v;
+    }
+    let kinds = |s: &str| parser::tokenize(s).iter().filter(|t| t.kind != TokenKind::Eof).map(|t| (t.kind, t.length)).collect::<Vec<_>>();
+    let joined = kinds(&format!("{a}{b}"));
+    let mut apart = kinds(a);
+    apart.extend(kinds(b));
+    let r = joined != apart;
+    cache.insert(key, r);
+    r
+}
+
+struct Layout {
+    /// false: no comment next to a separator comma, after `}`, alone on a line before `}`, or inside `use`
+    comments_anywhere: bool,
+    /// per cent
+    p_space: u32,
+    p_nl_ok: u32,
+    p_nl_risky: u32,
+    p_block_comment: u32,
+    p_line_comment: u32,
+    p_blank_line: u32,
+    semicolons: u32,
+}
+
+fn render(toks: &[(Gap, String)], rng: &mut Rng, l: &Layout, cache: &mut HashMap<(String, String), bool>) -> String {
+    let mut s = String::new();
+    let mut counter = 0usize;
+    let mut indent = 0usize;
+    let mut prev = String::new();
+    let mut in_use = false;
+    for (gap, text) in toks {
+        if *gap == Gap::Sep {
+            in_use = false;
+        }
+        if text == "use" {
+            in_use = true;
+        }
+        let trailing_ok = l.comments_anywhere || !(prev == "," || prev == "}" || in_use);
+        let leading_ok = l.comments_anywhere || !(text == "," || text == "}" || text == "{" || in_use);
+        let mut trivia = String::new();
+        let mut had_nl = false;
+        let newline = |trivia: &mut String, rng: &mut Rng, indent: usize| {
+            trivia.push('\n');
+            let k = match rng.below(4) {
+                0 => 0,
+                1 => indent * 4,
+                2 => rng.below(12),
+                _ => indent * 2,
+            };
+            for _ in 0..k {
+                trivia.push(' ');
+            }
+        };
+        let nl_allowed = match gap {
+            Gap::Sep => true,
+            Gap::NlOk => rng.chance(l.p_nl_ok, 100),
+            Gap::Free => rng.chance(l.p_nl_risky, 100),
+            Gap::Tight | Gap::Glue => false,
+        };
+        if *gap == Gap::Glue {
+            s.push_str(text);
+            prev = text.clone();
+            continue;
+        }
+        if !prev.is_empty() {
+            // comments
+            if trailing_ok && rng.chance(l.p_block_comment, 100) {
+                counter += 1;
+                if rng.chance(1, 2) || prev.ends_with('/') || prev.ends_with('*') {
+                    trivia.push(' ');
+                }
+                trivia.push_str(&format!("/* c{counter} */"));
+                if rng.chance(1, 2) {
+                    trivia.push(' ');
+                }
+            }
+            if *gap == Gap::Sep {
+                if rng.chance(l.semicolons, 100) {
+                    trivia.push(';');
+                    if rng.chance(1, 2) {
+                        newline(&mut trivia, rng, indent);
+                    }
+                } else {
+                    if trailing_ok && rng.chance(l.p_line_comment, 100) {
+                        counter += 1;
+                        trivia.push_str(&format!(" // c{counter}"));
+                    }
+                    newline(&mut trivia, rng, indent);
+                }
+                had_nl = true;
+                if rng.chance(l.p_blank_line, 100) {
+                    newline(&mut trivia, rng, indent);
+                }
+            } else if nl_allowed {
+                if trailing_ok && rng.chance(l.p_line_comment, 100) {
+                    counter += 1;
+                    if prev.ends_with('/') {
+                        trivia.push(' ');
+                    }
+                    trivia.push_str(&format!("// c{counter}"));
+                }
+                newline(&mut trivia, rng, indent);
+                had_nl = true;
+                if rng.chance(l.p_blank_line, 100) {
+                    newline(&mut trivia, rng, indent);
+                }
+            } else if rng.chance(l.p_space, 100) {
+                trivia.push(' ');
+                if rng.chance(1, 10) {
+                    trivia.push_str("  ");
+                }
+            }
+            if had_nl && leading_ok && rng.chance(l.p_block_comment, 100) {
+                counter += 1;
+                trivia.push_str(&format!("/* c{counter} */ "));
+            }
+            if trivia.is_empty() && glues(cache, &prev, text) {
+                trivia.push(' ');
+            }
+        }
+        s.push_str(&trivia);
+        s.push_str(text);
+        match text.as_str() {
+            "{" | "(" | "[" => indent += 1,
+            "}" | ")" | "]" => indent = indent.saturating_sub(1),
+            _ => {}
+        }
+        prev = text.clone();
+    }
+    if rng.chance(1, 2) {
+        s.push('\n');
+    }
+    if (l.comments_anywhere || prev != "}") && rng.chance(l.p_line_comment, 100) {
+        s.push_str(&format!("// c{}\n", counter + 1));
+    }
+    s
+}
+
+/// One generated program (text). Validity is decided by the real parser; risky layouts that
+/// the parser rejects are re-rendered conservatively.
+pub fn gen_program(rng: &mut Rng, q: &BTreeSet<String>) -> String {
+    let mut toks = vec![];
+    let feat = Feat::pick(rng);
+    {
+        let budget = rng.range(15, 220) as isize;
+        let mut g = G { feat, rng, toks: vec![], depth: 0, budget, q, names: 0 };
+        let nn = g.rng.range(1, 6);
+        for i in 0..nn {
+            g.top_stmt(if i == 0 { Gap::Free } else { Gap::Sep }, false);
+            if g.budget < -400 {
+                break;
+            }
+        }
+        std::mem::swap(&mut toks, &mut g.toks);
+    }
+    let mut cache = HashMap::new();
+    let style = rng.below(5);
+    let mut l = match style {
+        0 => Layout { comments_anywhere: feat.comments_anywhere, p_space: 70, p_nl_ok: 10, p_nl_risky: 0, p_block_comment: 0, p_line_comment: 0, p_blank_line: 5, semicolons: 5 }, // tidy, no comments
+        1 => Layout { comments_anywhere: feat.comments_anywhere, p_space: 10, p_nl_ok: 0, p_nl_risky: 0, p_block_comment: 0, p_line_comment: 0, p_blank_line: 0, semicolons: 30 }, // dense
+        2 => Layout { comments_anywhere: feat.comments_anywhere, p_space: 60, p_nl_ok: 35, p_nl_risky: 4, p_block_comment: 4, p_line_comment: 15, p_blank_line: 15, semicolons: 5 }, // airy with comments
+        3 => Layout { comments_anywhere: feat.comments_anywhere, p_space: 50, p_nl_ok: 15, p_nl_risky: 1, p_block_comment: 10, p_line_comment: 30, p_blank_line: 5, semicolons: 10 }, // comment heavy
+        _ => Layout { comments_anywhere: feat.comments_anywhere, p_space: 50, p_nl_ok: 60, p_nl_risky: 8, p_block_comment: 1, p_line_comment: 3, p_blank_line: 10, semicolons: 0 }, // one token per line
+    };
+    for attempt in 0..4 {
+        let s = render(&toks, rng, &l, &mut cache);
+        let (_, errs) = parser::parse_program(&s, PathBuf::new());
+        if errs.is_empty() {
+            return s;
+        }
+        // less risk on every retry
+        l.p_nl_risky = 0;
+        if attempt >= 1 {
+            l.p_nl_ok /= 2;
+        }
+        if attempt >= 2 {
+            l.p_block_comment = 0;
+            l.p_line_comment = 0;
+            l.p_nl_ok = 0;
+        }
+    }
+    // give the rejected text to the oracle anyway: it is counted as rejected there
+    render(&toks, rng, &l, &mut cache)
+}
+
+// =====================================================================================
+// developer probe:  mmv C14 --file x.mmm [--width 20] [--indent 4] [--gen N]
+// =====================================================================================
+
+fn dev_probe(args: &Args, file: &str) {
+    let width: usize = args.extra.get("width").and_then(|s| s.parse().ok()).unwrap_or(80);
+    let indent: usize = args.extra.get("indent").and_then(|s| s.parse().ok()).unwrap_or(4);
+    let src = if file == "gen" {
+        let mut rng = args.case_rng(args.extra.get("n").and_then(|s| s.parse().ok()).unwrap_or(0));
+        gen_program(&mut rng, &args.quarantine)
+    } else {
+        std::fs::read_to_string(file).expect("read file")
+    };
+    println!("--- input\n{src}");
+    let ctx = ExecCtx { repo: args.repo.clone(), max_viol_per_sig: 100 };
+    let case = Case { origin: "probe".into(), src: src.clone(), configs: vec![(width, indent)], rel_path: None };
+    let input = load_input(&ctx, &case);
+    println!("--- parse errors: {:?}", input.parsed.errors);
+    if args.extra.contains_key("tree") {
+        println!("--- tree\n{}", input.parsed.tree.render(400));
+    }
+    set_indent(indent);
+    match format_real(&src, width) {
+        Ok(Ok(s)) => {
+            println!("--- fmt(x) width={width} indent={indent}\n{s}");
+            let mut o = Out::new(Some("/dev/null"));
+            let mut memo = HashMap::new();
+            if !input.parsed.errors.is_empty() {
+                return;
+            }
+            match check_config(&input, width, indent, &mut memo, &mut o) {
+                Ok(_) => println!("--- all clauses hold"),
+                Err(vs) => {
+                    for v in vs {
+                        println!("--- VIOLATION {}\n{}", v.sig, if args.extra.contains_key("detail") { v.detail.clone() } else { String::new() });
+                    }
+                }
+            }
+        }
+        other => println!("--- formatter: {other:?}"),
+    }
+}
+
+/// developer tool: `mmv C14 --minimize <replay.json> [--to <out.json>]` shrinks the text of a
+/// recorded violation by deleting token ranges while the same signature is still produced.
+fn dev_minimize(args: &Args, file: &str) {
+    let txt = std::fs::read_to_string(file).expect("read replay");
+    let v: Value = serde_json::from_str(&txt).expect("json");
+    let sig = v.get("sig").and_then(|s| s.as_str()).expect("sig").to_string();
+    let case: Case = serde_json::from_value(v.get("case").cloned().expect("case")).expect("case");
+    let ctx = ExecCtx { repo: args.repo.clone(), max_viol_per_sig: 0 };
+    let (w, i) = case.configs[0];
+    let mut sink = Out::new(Some("/dev/null"));
+    let tests = std::cell::Cell::new(0usize);
+    let allow_error_nodes = {
+        let input = load_input(&ctx, &case);
+        let mut ks = BTreeSet::new();
+        input.parsed.tree.kinds(&mut ks);
+        input.expr.0.kinds(&mut ks);
+        ks.iter().any(|k| k.ends_with("Error"))
+    };
+    let mut still = |src: &str| -> bool {
+        tests.set(tests.get() + 1);
+        let c = Case { origin: case.origin.clone(), src: src.to_string(), configs: vec![(w, i)], rel_path: case.rel_path.clone() };
+        let input = load_input(&ctx, &c);
+        if !input.parsed.errors.is_empty() || input.parsed.nontrivia_tokens == 0 {
+            return false;
+        }
+        // keep the witness a sensible program: no lowering errors unless the original had them
+        if !allow_error_nodes {
+            let mut ks = BTreeSet::new();
+            input.parsed.tree.kinds(&mut ks);
+            input.expr.0.kinds(&mut ks);
+            if ks.iter().any(|k| k.ends_with("Error")) {
+                return false;
+            }
+        }
+        let mut memo = HashMap::new();
+        match check_config(&input, w, i, &mut memo, &mut sink) {
+            Ok(_) => false,
+            Err(vs) => vs.iter().any(|x| x.sig == sig),
+        }
+    };
+    let mut cur = case.src.clone();
+    if !still(&cur) {
+        println!("NOT-REPRODUCED {sig}");
+        return;
+    }
+    loop {
+        let toks: Vec<String> = {
+            let t = parser::tokenize(&cur);
+            t.iter().filter(|t| t.kind != TokenKind::Eof).map(|t| t.text(&cur).to_string()).collect()
+        };
+        let mut pieces = toks.clone();
+        let mut chunk = (pieces.len() / 2).max(1);
+        let mut progress = false;
+        while chunk >= 1 {
+            let mut k = 0;
+            while k < pieces.len() {
+                let end = (k + chunk).min(pieces.len());
+                let cand: String = pieces[..k].iter().chain(pieces[end..].iter()).cloned().collect();
+                if !cand.trim().is_empty() && still(&cand) {
+                    pieces.drain(k..end);
+                    progress = true;
+                } else {
+                    k += chunk;
+                }
+            }
+            if chunk == 1 {
+                break;
+            }
+            chunk /= 2;
+        }
+        // cosmetic: collapse runs of blanks, shorten identifiers is left alone
+        let next: String = pieces.concat();
+        let changed = next != cur;
+        cur = next;
+        if !progress || !changed || tests.get() > 20000 {
+            break;
+        }
+    }
+    let outc = Case { origin: format!("minimised from {}", case.origin), src: cur.clone(), configs: vec![(w, i)], rel_path: None };
+    // the include path does not matter for a minimised text unless the violation needs it
+    let keep_path = !still(&cur);
+    let outc = if keep_path { Case { rel_path: case.rel_path.clone(), ..outc } } else { outc };
+    let j = json!({"property": "C14", "sig": sig, "case": outc});
+    if let Some(to) = args.extra.get("to") {
+        std::fs::write(to, serde_json::to_string_pretty(&j).unwrap()).expect("write");
+    }
+    println!("MINIMISED {sig} ({} tests, {} bytes)\n{}", tests.get(), cur.len(), cur);
+}
